@@ -1,7 +1,7 @@
 /-
   Proofs.Printer — the parser (with the specification's table) inverts the
-  precedence-aware printer `Spec.ppE`, with minimal or with full
-  parenthesisation.  Proved on the relational description `R`; `R_sound` and the
+  precedence-aware printer `Spec.ppE`, projections and explicit parentheses
+  included.  Proved on the relational description `R`; `R_sound` and the
   parser-safety theorem turn it into a statement about `parseTokens`.
 -/
 import Proofs.ParserRel
@@ -14,21 +14,44 @@ variable {N : Type} [NumOps N]
 
 abbrev T : ParserTable := Spec.table
 
+def wfNum (o : Option (Bytes × Int)) : Prop :=
+  match o with
+  | some (t, i) => atoi t = some i
+  | none => True
+
+def wfSlice (s : SliceTxt) : Prop := wfNum s.a ∧ wfNum s.b ∧ wfNum s.c
+
 mutual
-/-- Side conditions on the token texts: a literal's text decodes to its value,
-    an index's digits denote its integer, a dot's right-hand side is an
-    identifier (possibly indexed / called), a list or a hash. -/
+/-- Side conditions on the token texts and on the places where the grammar
+    restricts what may stand: a literal's text decodes to its value, digits
+    denote their integer, a dot is followed by an identifier-headed expression,
+    a list or a hash, a projection's right-hand side starts the way it must. -/
 def wf : PE N → Prop
   | .lit t v => (Json.decode t : Option (Val N)) = some v
   | .idx0 txt i => atoi txt = some i
   | .idx l txt i => atoi txt = some i ∧ wf l
-  | .sub l r => dotOK r = true ∧ wf l ∧ wf r
+  | .sub l r => dotOK 40 false r = true ∧ wf l ∧ wf r
   | .not e => wf e
   | .bin _ l r => wf l ∧ wf r
   | .call _ args => wfArgs args
-  | .list x xs => wf x ∧ wfList xs
+  | .list x xs => first x ≠ .star ∧ wf x ∧ wfList xs
   | .hash _ _ v kvs => wf v ∧ wfKVs kvs
+  | .paren e => wf e
+  | .star0 r => wfRhs 20 r
+  | .dstar l r => wf l ∧ wfRhs 20 r
+  | .bstar0 r => wfRhs 20 r
+  | .bstar l r => wf l ∧ wfRhs 20 r
+  | .flat0 r => wfRhs 9 r
+  | .flat l r => wf l ∧ wfRhs 9 r
+  | .slice0 s r => wfSlice s ∧ wfRhs 20 r
+  | .slice l s r => wfSlice s ∧ wf l ∧ wfRhs 20 r
+  | .filt0 c r => wf c ∧ wfRhs 21 r
+  | .filt l c r => wf l ∧ wf c ∧ wfRhs 21 r
   | _ => True
+def wfRhs : Nat → Rhs N → Prop
+  | _, .none => True
+  | bp, .dot e => dotOK bp true e = true ∧ wf e
+  | bp, .br e => brOK bp e = true ∧ wf e
 def wfList : List (PE N) → Prop
   | [] => True
   | x :: xs => wf x ∧ wfList xs
@@ -40,17 +63,24 @@ def wfArgs : List (Bool × PE N) → Prop
   | (_, e) :: rest => wf e ∧ wfArgs rest
 end
 
-/-- The largest power a following token may have without being absorbed. -/
-def rp (e : PE N) : Nat := min e.level 59
+/-- The specification's levels, token by token. -/
+def specPow : TokType → Nat
+  | .pipe => 1 | .or => 2 | .and => 3
+  | .eq | .ne | .lt | .lte | .gt | .gte => 5
+  | .flatten => 9 | .star => 20 | .filter => 21 | .dot => 40 | .not => 45
+  | .lbrace => 50 | .lbracket => 55 | .lparen => 60
+  | _ => 0
 
-def Follow (e : PE N) (rest : List Token) : Prop := ∃ t rest', rest = t :: rest' ∧ T.power t.ty ≤ rp e
+@[simp] theorem T_power (ty : TokType) : T.power ty = specPow ty := by cases ty <;> rfl
+
+def Follow (e : PE N) (rest : List Token) : Prop := ∃ t rest', rest = t :: rest' ∧ specPow t.ty ≤ e.rp
 
 /-- The statement proved for every expression: parsing the printed tokens at a
     level below the expression's own continues the Pratt loop with the
     expression's AST as the left operand. -/
 def GoodE (e : PE N) : Prop :=
-  wf e → ∀ (full : Bool) (k : Nat) (bef rest : List Token) (o : Out N), k < e.level → Follow e rest →
-    R T (.loop k (node e) ⟨(ppE full e).reverse ++ bef, rest⟩) o → R T (.expr k ⟨bef, ppE full e ++ rest⟩) o
+  wf e → ∀ (k : Nat) (bef rest : List Token) (o : Out N), k < e.level → Follow e rest →
+    R T (.loop k (node e) ⟨(ppE e).reverse ++ bef, rest⟩) o → R T (.expr k ⟨bef, ppE e ++ rest⟩) o
 
 def GoodList : List (PE N) → Prop
   | [] => True
@@ -62,15 +92,48 @@ def GoodArgs : List (Bool × PE N) → Prop
   | [] => True
   | (_, e) :: rest => GoodE e ∧ GoodArgs rest
 
-/-- The specification's levels, token by token. -/
-def specPow : TokType → Nat
-  | .pipe => 1 | .or => 2 | .and => 3
-  | .eq | .ne | .lt | .lte | .gt | .gte => 5
-  | .flatten => 9 | .star => 20 | .filter => 21 | .dot => 40 | .not => 45
-  | .lbrace => 50 | .lbracket => 55 | .lparen => 60
-  | _ => 0
+section Levels
+omit [NumOps N]
+variable (l r e c : PE N) (rh : Rhs N) (op : BinOp) (s : SliceTxt) (t : Bytes) (i : Int)
+theorem lv_ident : (PE.ident t : PE N).level = 100 := rfl
+theorem lv_quoted : (PE.quoted t : PE N).level = 100 := rfl
+theorem lv_raw : (PE.raw t : PE N).level = 100 := rfl
+theorem lv_lit (v : Val N) : (PE.lit t v).level = 100 := rfl
+theorem lv_current : (PE.current : PE N).level = 100 := rfl
+theorem lv_idx0 : (PE.idx0 t i : PE N).level = 100 := rfl
+theorem lv_idx : (PE.idx l t i).level = 55 := rfl
+theorem lv_sub : (PE.sub l r).level = 40 := rfl
+theorem lv_not : (PE.not e).level = 45 := rfl
+theorem lv_bin : (PE.bin op l r).level = op.pow := rfl
+theorem lv_call (a : List (Bool × PE N)) : (PE.call t a).level = 60 := rfl
+theorem lv_list (xs : List (PE N)) : (PE.list e xs).level = 100 := rfl
+theorem lv_hash (q : Bool) (kvs : List (Bool × Bytes × PE N)) : (PE.hash q t e kvs).level = 100 := rfl
+theorem lv_paren : (PE.paren e).level = 100 := rfl
+theorem lv_star0 : (PE.star0 rh).level = 100 := rfl
+theorem lv_dstar : (PE.dstar l rh).level = 40 := rfl
+theorem lv_bstar0 : (PE.bstar0 rh).level = 100 := rfl
+theorem lv_bstar : (PE.bstar l rh).level = 55 := rfl
+theorem lv_flat0 : (PE.flat0 rh).level = 100 := rfl
+theorem lv_flat : (PE.flat l rh).level = 9 := rfl
+theorem lv_slice0 : (PE.slice0 s rh).level = 100 := rfl
+theorem lv_slice : (PE.slice l s rh).level = 55 := rfl
+theorem lv_filt0 : (PE.filt0 c rh).level = 100 := rfl
+theorem lv_filt : (PE.filt l c rh).level = 21 := rfl
+theorem pow_le_5 : op.pow ≤ 5 ∧ 0 < op.pow := by cases op <;> simp [BinOp.pow]
+end Levels
 
-@[simp] theorem T_power (ty : TokType) : T.power ty = specPow ty := by cases ty <;> rfl
+macro "lvls" : tactic => `(tactic| simp only [lv_ident, lv_quoted, lv_raw, lv_lit, lv_current, lv_idx0, lv_idx, lv_sub, lv_not, lv_bin,
+  lv_call, lv_list, lv_hash, lv_paren, lv_star0, lv_dstar, lv_bstar0, lv_bstar, lv_flat0, lv_flat, lv_slice0, lv_slice, lv_filt0, lv_filt] at *)
+
+omit [NumOps N] in
+theorem rp_le_59 (e : PE N) : e.rp ≤ 59 := by
+  cases e with
+  | bin op l r => have := pow_le_5 op; simp only [PE.rp]; split <;> omega
+  | _ => simp only [PE.rp] <;> (try split) <;> omega
+
+omit [NumOps N] in
+theorem rp_le_level (e : PE N) : e.rp ≤ e.level := by
+  cases e <;> simp only [PE.rp] <;> (try split) <;> (try lvls) <;> omega
 
 theorem advance_cons (bef : List Token) (t : Token) (ts : List Token) :
     (⟨bef, t :: ts⟩ : PState).advance = ⟨t :: bef, ts⟩ := rfl
@@ -78,41 +141,32 @@ theorem advance_cons (bef : List Token) (t : Token) (ts : List Token) :
 theorem advance_cons_append (bef : List Token) (t : Token) (ts rest : List Token) :
     (⟨bef, t :: ts ++ rest⟩ : PState).advance = ⟨t :: bef, ts ++ rest⟩ := rfl
 
-theorem power_le_59_ne_lparen {t : Token} (h : T.power t.ty ≤ 59) : t.ty ≠ .lparen := by
+theorem pow_le_59_ne_lparen {t : Token} (h : specPow t.ty ≤ 59) : t.ty ≠ .lparen := by
   intro e; rw [e] at h; simp [specPow] at h
 
-/-- An expression in parentheses, at any level, with anything after it. -/
-theorem paren_expr {e : PE N} (ge : GoodE e) (hw : wf e) (full : Bool) (k : Nat) (bef rest : List Token) (o : Out N)
-    (hloop : R T (.loop k (node e) ⟨(parens (ppE full e)).reverse ++ bef, rest⟩) o) :
-    R T (.expr k ⟨bef, parens (ppE full e) ++ rest⟩) o := by
-  have hlev : 0 < e.level := by cases e <;> simp [PE.level, BinOp.pow] <;> (rename_i op _ _; cases op <;> simp [BinOp.pow])
-  have inner : R T (.expr T.nudParen ⟨tk .lparen :: bef, ppE full e ++ tk .rparen :: rest⟩)
-      (.node (node e) ⟨(ppE full e).reverse ++ tk .lparen :: bef, tk .rparen :: rest⟩) := by
-    refine ge hw full 0 _ _ _ hlev ⟨tk .rparen, rest, rfl, by simp [specPow, tk]⟩ ?_
-    exact R.stop (t := tk .rparen) (rest := rest) rfl (by simp [specPow, tk])
-  have hn : R T (.nud (tk .lparen) (⟨bef, parens (ppE full e) ++ rest⟩ : PState).advance)
-      (.node (node e) (⟨(ppE full e).reverse ++ tk .lparen :: bef, tk .rparen :: rest⟩ : PState).advance) := by
-    have : (⟨bef, parens (ppE full e) ++ rest⟩ : PState).advance = ⟨tk .lparen :: bef, ppE full e ++ tk .rparen :: rest⟩ := by
-      simp [parens, PState.advance]
-    rw [this]
-    exact R.nudParen (t := tk .rparen) (rest := rest) rfl inner rfl rfl
-  refine R.expr (tok := tk .lparen) (rest := ppE full e ++ tk .rparen :: rest) (by simp [parens]) hn ?_
-  simpa [parens, advance_cons, List.reverse_append] using hloop
-
-end Jmes.Parser
-
-namespace Jmes.Parser
-open Jmes.Spec
-variable {N : Type} [NumOps N]
-
-/-- The right-hand side of a dot. -/
-def GoodDot (e : PE N) : Prop :=
-  wf e → dotOK e = true → ∀ (full : Bool) (bef rest : List Token),
-    (∃ t rest', rest = t :: rest' ∧ T.power t.ty ≤ 40) →
-    R T (.dot T.ledDotSub ⟨bef, ppE full e ++ rest⟩) (.node (node e) ⟨(ppE full e).reverse ++ bef, rest⟩)
+omit [NumOps N] in
+theorem level_pos (e : PE N) : 0 < e.level := by
+  cases e <;> (try lvls) <;> (try (rename_i op _ _; have := pow_le_5 op)) <;> omega
 
 @[simp] theorem tk_ty (ty : TokType) (v : Bytes) : (tk ty v).ty = ty := rfl
 @[simp] theorem tk_value (ty : TokType) (v : Bytes) : (tk ty v).value = v := rfl
+
+/-- An expression in parentheses, at any level, with anything after it. -/
+theorem paren_expr {e : PE N} (ge : GoodE e) (hw : wf e) (k : Nat) (bef rest : List Token) (o : Out N)
+    (hloop : R T (.loop k (node e) ⟨(parens (ppE e)).reverse ++ bef, rest⟩) o) :
+    R T (.expr k ⟨bef, parens (ppE e) ++ rest⟩) o := by
+  have inner : R T (.expr T.nudParen ⟨tk .lparen :: bef, ppE e ++ tk .rparen :: rest⟩)
+      (.node (node e) ⟨(ppE e).reverse ++ tk .lparen :: bef, tk .rparen :: rest⟩) := by
+    refine ge hw 0 _ _ _ (level_pos e) ⟨tk .rparen, rest, rfl, by simp [specPow]⟩ ?_
+    exact R.stop (t := tk .rparen) (rest := rest) rfl (by simp [specPow])
+  have hn : R T (.nud (tk .lparen) (⟨bef, parens (ppE e) ++ rest⟩ : PState).advance)
+      (.node (node e) (⟨(ppE e).reverse ++ tk .lparen :: bef, tk .rparen :: rest⟩ : PState).advance) := by
+    have : (⟨bef, parens (ppE e) ++ rest⟩ : PState).advance = ⟨tk .lparen :: bef, ppE e ++ tk .rparen :: rest⟩ := by
+      simp [parens, PState.advance]
+    rw [this]
+    exact R.nudParen (t := tk .rparen) (rest := rest) rfl inner rfl rfl
+  refine R.expr (tok := tk .lparen) (rest := ppE e ++ tk .rparen :: rest) (by simp [parens]) hn ?_
+  simpa [parens, advance_cons, List.reverse_append] using hloop
 
 /-- nud of a one-token atom followed by the loop. -/
 theorem atom_expr (tok : Token) (n : Node N) (k : Nat) (bef rest : List Token) (o : Out N)
@@ -121,289 +175,312 @@ theorem atom_expr (tok : Token) (n : Node N) (k : Nat) (bef rest : List Token) (
   R.expr (tok := tok) (rest := rest) rfl hn hloop
 
 theorem good_ident (n : Bytes) : GoodE (N := N) (.ident n) := by
-  intro _ full k bef rest o _ _ hloop
+  intro _ k bef rest o _ _ hloop
   have hn : R T (.nud (tk .uident n) ⟨tk .uident n :: bef, rest⟩) (.node (N := N) (.field n) ⟨tk .uident n :: bef, rest⟩) := by
     have := R.nudIdent (tbl := T) (N := N) (tok := tk .uident n) (p := ⟨tk .uident n :: bef, rest⟩) rfl
     simpa using this
   exact atom_expr (tk .uident n) _ k bef rest o hn (by simpa [ppE, node] using hloop)
 
 theorem good_quoted (n : Bytes) : GoodE (N := N) (.quoted n) := by
-  intro _ full k bef rest o _ hf hloop
+  intro _ k bef rest o _ hf hloop
   obtain ⟨t, rest', rfl, ht⟩ := hf
-  have hne : t.ty ≠ .lparen := power_le_59_ne_lparen (by simp only [rp, PE.level] at ht; omega)
+  have hne : t.ty ≠ .lparen := pow_le_59_ne_lparen (by simpa [PE.rp] using ht)
   have hn : R T (.nud (tk .qident n) ⟨tk .qident n :: bef, t :: rest'⟩) (.node (N := N) (.field n) ⟨tk .qident n :: bef, t :: rest'⟩) := by
     have := R.nudQuoted (tbl := T) (N := N) (tok := tk .qident n) (p := ⟨tk .qident n :: bef, t :: rest'⟩) (t := t) (rest := rest') rfl rfl hne
     simpa using this
   exact atom_expr (tk .qident n) _ k bef _ o hn (by simpa [ppE, node] using hloop)
 
 theorem good_raw (s : Bytes) : GoodE (N := N) (.raw s) := by
-  intro _ full k bef rest o _ _ hloop
+  intro _ k bef rest o _ _ hloop
   have hn : R T (.nud (tk .stringLiteral s) ⟨tk .stringLiteral s :: bef, rest⟩) (.node (N := N) (.literal (.str s)) ⟨tk .stringLiteral s :: bef, rest⟩) := by
     have := R.nudRaw (tbl := T) (N := N) (tok := tk .stringLiteral s) (p := ⟨tk .stringLiteral s :: bef, rest⟩) rfl
     simpa using this
   exact atom_expr (tk .stringLiteral s) _ k bef rest o hn (by simpa [ppE, node] using hloop)
 
 theorem good_lit (t : Bytes) (v : Val N) : GoodE (.lit t v) := by
-  intro hw full k bef rest o _ _ hloop
+  intro hw k bef rest o _ _ hloop
   have hn : R T (.nud (tk .jsonLiteral t) ⟨tk .jsonLiteral t :: bef, rest⟩) (.node (.literal v) ⟨tk .jsonLiteral t :: bef, rest⟩) :=
     R.nudJson (tok := tk .jsonLiteral t) rfl hw
   exact atom_expr (tk .jsonLiteral t) _ k bef rest o hn (by simpa [ppE, node] using hloop)
 
 theorem good_current : GoodE (N := N) .current := by
-  intro _ full k bef rest o _ _ hloop
+  intro _ k bef rest o _ _ hloop
   exact atom_expr (tk .current) _ k bef rest o (R.nudCurrent rfl) (by simpa [ppE, node] using hloop)
 
 theorem good_idx0 (txt : Bytes) (i : Int) : GoodE (N := N) (.idx0 txt i) := by
-  intro hw full k bef rest o _ _ hloop
+  intro hw k bef rest o _ _ hloop
   refine R.expr (tok := tk .lbracket) (rest := tk .number txt :: tk .rbracket :: rest) rfl ?_ (by simpa [ppE, node] using hloop)
   have := R.nudIndex (tbl := T) (N := N) (tok := tk .lbracket) (p := ⟨tk .lbracket :: bef, tk .number txt :: tk .rbracket :: rest⟩)
     (n := tk .number txt) (rb := tk .rbracket) (rest := rest) (i := i) rfl rfl rfl rfl hw
   simpa [advance_cons, ppE] using this
 
-/-- The operand token list of a prefix / right operand position. -/
+theorem good_paren {e : PE N} (ge : GoodE e) : GoodE (.paren e) := by
+  intro hw k bef rest o _ _ hloop
+  have hw' : wf e := by simpa [wf] using hw
+  have := paren_expr ge hw' k bef rest o (by simpa [ppE, node] using hloop)
+  simpa [ppE] using this
+
+/-- The operand token list of a prefix / left / right operand position. -/
 def wrapIf (c : Bool) (ts : List Token) : List Token := if c then parens ts else ts
 
-theorem level_pos (e : PE N) : 0 < e.level := by
-  cases e <;> simp [PE.level] <;> (rename_i op _ _; cases op <;> simp [BinOp.pow])
-
 /-- An operand (bare when `c = false`, in parentheses otherwise) followed by the loop. -/
-theorem operand_loop {e : PE N} (ge : GoodE e) (hw : wf e) (full : Bool) (c : Bool) (k : Nat)
+theorem operand_loop {e : PE N} (ge : GoodE e) (hw : wf e) (c : Bool) (k : Nat)
     (bef rest : List Token) (o : Out N) (hc : c = false → k < e.level ∧ Follow e rest)
-    (hloop : R T (.loop k (node e) ⟨(wrapIf c (ppE full e)).reverse ++ bef, rest⟩) o) :
-    R T (.expr k ⟨bef, wrapIf c (ppE full e) ++ rest⟩) o := by
+    (hloop : R T (.loop k (node e) ⟨(wrapIf c (ppE e)).reverse ++ bef, rest⟩) o) :
+    R T (.expr k ⟨bef, wrapIf c (ppE e) ++ rest⟩) o := by
   cases c with
-  | true => exact paren_expr ge hw full k _ _ _ hloop
-  | false => exact ge hw full k _ _ _ (hc rfl).1 (hc rfl).2 hloop
+  | true => exact paren_expr ge hw k _ _ _ hloop
+  | false => exact ge hw k _ _ _ (hc rfl).1 (hc rfl).2 hloop
 
 /-- An operand parsed at level `k` (either because its level is above `k`, or
     in parentheses), followed by a token the loop at level `k` stops at. -/
-theorem operand_expr {e : PE N} (ge : GoodE e) (hw : wf e) (full : Bool) (c : Bool) (k : Nat)
-    (hc : c = false → k < e.level ∧ k ≤ rp e) (bef : List Token) (t : Token) (rest' : List Token)
-    (ht : specPow t.ty ≤ k) :
-    R T (.expr k ⟨bef, wrapIf c (ppE full e) ++ t :: rest'⟩)
-      (.node (node e) ⟨(wrapIf c (ppE full e)).reverse ++ bef, t :: rest'⟩) := by
-  refine operand_loop ge hw full c k bef _ _ (fun h => ⟨(hc h).1, t, rest', rfl, ?_⟩) ?_
-  · rw [T_power]; have := (hc h).2; omega
-  · exact R.stop (t := t) (rest := rest') rfl (by rw [T_power]; omega)
+theorem operand_expr {e : PE N} (ge : GoodE e) (hw : wf e) (c : Bool) (k : Nat)
+    (bef : List Token) (t : Token) (rest' : List Token)
+    (hc : c = false → k < e.level ∧ specPow t.ty ≤ e.rp) (ht : specPow t.ty ≤ k) :
+    R T (.expr k ⟨bef, wrapIf c (ppE e) ++ t :: rest'⟩)
+      (.node (node e) ⟨(wrapIf c (ppE e)).reverse ++ bef, t :: rest'⟩) := by
+  refine operand_loop ge hw c k bef _ _ (fun h => ⟨(hc h).1, t, rest', rfl, (hc h).2⟩) ?_
+  exact R.stop (t := t) (rest := rest') rfl (by rw [T_power]; omega)
 
-/-- An element of a list / hash / argument list: parsed at level 0 up to a token of power 0. -/
-theorem elem_expr {e : PE N} (ge : GoodE e) (hw : wf e) (full : Bool) (bef : List Token) (t : Token) (rest' : List Token)
+/-- An element of a list / hash / argument list / filter condition: parsed at level 0 up to a token of power 0. -/
+theorem elem_expr {e : PE N} (ge : GoodE e) (hw : wf e) (bef : List Token) (t : Token) (rest' : List Token)
     (ht : specPow t.ty = 0) :
-    R T (.expr 0 ⟨bef, ppE full e ++ t :: rest'⟩) (.node (node e) ⟨(ppE full e).reverse ++ bef, t :: rest'⟩) := by
-  have := operand_expr ge hw full false 0 (fun _ => ⟨level_pos e, Nat.zero_le _⟩) bef t rest' (by omega)
+    R T (.expr 0 ⟨bef, ppE e ++ t :: rest'⟩) (.node (node e) ⟨(ppE e).reverse ++ bef, t :: rest'⟩) := by
+  have := operand_expr ge hw false 0 bef t rest' (fun _ => ⟨level_pos e, by omega⟩) (by omega)
   simpa [wrapIf] using this
 
 /-- `!e` -/
 theorem good_not {e : PE N} (ge : GoodE e) : GoodE (.not e) := by
-  intro hw full k bef rest o _ hf hloop
+  intro hw k bef rest o _ hf hloop
+  have hw' : wf e := by simpa [wf] using hw
   obtain ⟨t, rest', rfl, ht⟩ := hf
-  rw [T_power] at ht
-  have ht45 : specPow t.ty ≤ 45 := by simp only [rp, PE.level] at ht; omega
-  have hop := operand_expr ge hw full (full || decide (PE.level e ≤ 45)) 45
-    (by intro hc; simp at hc; simp only [rp]; omega) (tk .not :: bef) t rest' ht45
-  have hn : R T (.nud (tk .not) ⟨tk .not :: bef, wrapIf (full || decide (PE.level e ≤ 45)) (ppE full e) ++ t :: rest'⟩)
-      (.node (.not (node e)) ⟨(wrapIf (full || decide (PE.level e ≤ 45)) (ppE full e)).reverse ++ tk .not :: bef, t :: rest'⟩) :=
+  generalize hc : decide (e.level ≤ 45) = c
+  have ht45 : specPow t.ty ≤ 45 := by
+    simp only [PE.rp] at ht; split at ht <;> omega
+  have hop := operand_expr ge hw' c 45 (tk .not :: bef) t rest'
+    (by intro h; rw [h] at hc
+        have hl : ¬ e.level ≤ 45 := by simpa using hc
+        simp only [PE.rp, hl, if_false] at ht
+        exact ⟨by omega, by omega⟩) ht45
+  have hn : R T (.nud (tk .not) ⟨tk .not :: bef, wrapIf c (ppE e) ++ t :: rest'⟩)
+      (.node (.not (node e)) ⟨(wrapIf c (ppE e)).reverse ++ tk .not :: bef, t :: rest'⟩) :=
     R.nudNot (tok := tk .not) rfl hop
-  have e1 : ppE full (.not e) = tk .not :: wrapIf (full || decide (PE.level e ≤ 45)) (ppE full e) := by
-    simp [ppE, wrapIf]
+  have e1 : ppE (.not e) = tk .not :: wrapIf c (ppE e) := by
+    simp [ppE, wrapIf, ← hc]
   rw [e1] at hloop ⊢
-  refine R.expr (tok := tk .not) (rest := wrapIf _ (ppE full e) ++ t :: rest') rfl hn ?_
+  refine R.expr (tok := tk .not) (rest := wrapIf c (ppE e) ++ t :: rest') rfl hn ?_
   simpa [node, List.reverse_append] using hloop
 
 theorem cmp_ofTok (c : Cmp) : Cmp.ofTok (cmpTok c) = some c := by cases c <;> rfl
 theorem cmp_pow (c : Cmp) : (T.ledCmp.lookup (cmpTok c)).getD 0 = 5 := by cases c <;> rfl
 
+/-- the left operand of an operator of power `P`, bare or parenthesised by the printer's rule -/
+theorem left_operand {l : PE N} (gl : GoodE l) (hwl : wf l) (P k : Nat) (hk : k < P) (optok : Token) (hop : specPow optok.ty = P)
+    (bef rest : List Token) (o : Out N)
+    (hloop : R T (.loop k (node l) ⟨(wrapIf (decide (l.rp < P)) (ppE l)).reverse ++ bef, optok :: rest⟩) o) :
+    R T (.expr k ⟨bef, wrapIf (decide (l.rp < P)) (ppE l) ++ optok :: rest⟩) o := by
+  refine operand_loop gl hwl _ k bef _ o ?_ hloop
+  intro h
+  have hge : ¬ l.rp < P := by simpa using h
+  have := rp_le_level l
+  exact ⟨by omega, optok, rest, rfl, by omega⟩
+
 /-- `l op r` -/
 theorem good_bin (op : BinOp) {l r : PE N} (gl : GoodE l) (gr : GoodE r) : GoodE (.bin op l r) := by
-  intro hw full k bef rest o hk hf hloop
+  intro hw k bef rest o hk hf hloop
   have ⟨hwl, hwr⟩ : wf l ∧ wf r := by simpa [wf] using hw
   obtain ⟨t, rest', rfl, ht⟩ := hf
-  rw [T_power] at ht
   have hpow : op.pow ≤ 5 ∧ 0 < op.pow := by cases op <;> simp [BinOp.pow]
   have hkp : k < op.pow := by simpa [PE.level] using hk
-  have htp : specPow t.ty ≤ op.pow := by simp only [rp, PE.level] at ht; omega
   have hoptok : specPow op.tok = op.pow := by
     cases op with
     | cmp c => cases c <;> rfl
     | _ => rfl
-  generalize hcl : (full || decide (PE.level l < op.pow)) = cl
-  generalize hcr : (full || decide (PE.level r ≤ op.pow)) = cr
-  have e1 : ppE full (.bin op l r) = wrapIf cl (ppE full l) ++ tk op.tok :: wrapIf cr (ppE full r) := by
-    simp [ppE, wrapIf, hcl, hcr]
+  generalize hcr : decide (r.level ≤ op.pow) = cr
+  have htp : specPow t.ty ≤ op.pow := by
+    simp only [PE.rp] at ht; split at ht <;> omega
+  have e1 : ppE (.bin op l r) = wrapIf (decide (l.rp < op.pow)) (ppE l) ++ tk op.tok :: wrapIf cr (ppE r) := by
+    simp [ppE, wrapIf, ← hcr]
   rw [e1] at hloop ⊢
   rw [List.append_assoc]
-  refine operand_loop gl hwl full cl k bef _ o ?_ ?_
-  · intro h
-    rw [h] at hcl
-    have : ¬ PE.level l < op.pow := by simpa using (Bool.or_eq_false_iff.mp hcl).2
-    refine ⟨by omega, tk op.tok, _, rfl, ?_⟩
-    rw [T_power]; simp only [rp, tk_ty, hoptok]; omega
-  · have hop := operand_expr gr hwr full cr op.pow (by
-        intro h; rw [h] at hcr
-        have : ¬ PE.level r ≤ op.pow := by simpa using (Bool.or_eq_false_iff.mp hcr).2
-        simp only [rp]; omega) (tk op.tok :: ((wrapIf cl (ppE full l)).reverse ++ bef)) t rest' htp
-    have hled : R T (.led (tk op.tok).ty (node l) (⟨(wrapIf cl (ppE full l)).reverse ++ bef, tk op.tok :: wrapIf cr (ppE full r) ++ t :: rest'⟩ : PState).advance)
-        (.node (op.node (node l) (node r)) ⟨(wrapIf cr (ppE full r)).reverse ++ tk op.tok :: ((wrapIf cl (ppE full l)).reverse ++ bef), t :: rest'⟩) := by
-      rw [advance_cons_append]
-      cases op with
-      | pipe => exact R.ledPipe hop
-      | or => exact R.ledOr hop
-      | and => exact R.ledAnd hop
-      | cmp c =>
-        have hp : ((T.ledCmp.lookup (tk (BinOp.cmp c).tok).ty).getD 0) = (BinOp.cmp c).pow := cmp_pow c
-        exact R.ledCmp (cmp_ofTok c) (by rw [hp]; exact hop)
-    refine R.step (t := tk op.tok) (rest := wrapIf cr (ppE full r) ++ t :: rest') (by simp) (by rw [T_power, tk_ty, hoptok]; exact hkp) hled ?_
-    simpa [node, List.reverse_append] using hloop
+  refine left_operand gl hwl op.pow k hkp (tk op.tok) (by simpa using hoptok) bef _ o ?_
+  generalize hcl : decide (l.rp < op.pow) = cl at hloop ⊢
+  have hop := operand_expr gr hwr cr op.pow (tk op.tok :: ((wrapIf cl (ppE l)).reverse ++ bef)) t rest' (by
+      intro h; rw [h] at hcr
+      have hl : ¬ r.level ≤ op.pow := by simpa using hcr
+      simp only [PE.rp, hl, if_false] at ht
+      exact ⟨by omega, by omega⟩) htp
+  have hled : R T (.led (tk op.tok).ty (node l) (⟨(wrapIf cl (ppE l)).reverse ++ bef, tk op.tok :: wrapIf cr (ppE r) ++ t :: rest'⟩ : PState).advance)
+      (.node (op.node (node l) (node r)) ⟨(wrapIf cr (ppE r)).reverse ++ tk op.tok :: ((wrapIf cl (ppE l)).reverse ++ bef), t :: rest'⟩) := by
+    rw [advance_cons_append]
+    cases op with
+    | pipe => exact R.ledPipe hop
+    | or => exact R.ledOr hop
+    | and => exact R.ledAnd hop
+    | cmp c =>
+      have hp : ((T.ledCmp.lookup (tk (BinOp.cmp c).tok).ty).getD 0) = (BinOp.cmp c).pow := cmp_pow c
+      exact R.ledCmp (cmp_ofTok c) (by rw [hp]; exact hop)
+  refine R.step (t := tk op.tok) (rest := wrapIf cr (ppE r) ++ t :: rest') (by simp) (by rw [T_power, tk_ty, hoptok]; exact hkp) hled ?_
+  simpa [node, List.reverse_append] using hloop
 
 /-- `l[i]` -/
 theorem good_idx {l : PE N} (txt : Bytes) (i : Int) (gl : GoodE l) : GoodE (.idx l txt i) := by
-  intro hw full k bef rest o hk hf hloop
+  intro hw k bef rest o hk hf hloop
   have ⟨hi, hwl⟩ : atoi txt = some i ∧ wf l := by simpa [wf] using hw
   have hk55 : k < 55 := by simpa [PE.level] using hk
-  generalize hcl : ((full && !dotHead l) || decide (PE.level l < 55)) = cl
-  have e1 : ppE full (.idx l txt i) = wrapIf cl (ppE full l) ++ [tk .lbracket, tk .number txt, tk .rbracket] := by
-    simp [ppE, wrapIf, hcl]
+  have e1 : ppE (.idx l txt i) = wrapIf (decide (l.rp < 55)) (ppE l) ++ [tk .lbracket, tk .number txt, tk .rbracket] := by
+    simp [ppE, wrapIf]
   rw [e1] at hloop ⊢
   rw [List.append_assoc]
-  refine operand_loop gl hwl full cl k bef _ o ?_ ?_
-  · intro h
-    rw [h] at hcl
-    have : ¬ PE.level l < 55 := by simpa using (Bool.or_eq_false_iff.mp hcl).2
-    refine ⟨by omega, tk .lbracket, _, rfl, ?_⟩
-    rw [T_power]; simp only [rp, tk_ty, specPow]; omega
-  · have hled := R.ledIndex (tbl := T) (node := node l)
-      (p := ⟨tk .lbracket :: (wrapIf cl (ppE full l)).reverse ++ bef, tk .number txt :: tk .rbracket :: rest⟩)
-      (n := tk .number txt) (rb := tk .rbracket) (rest := rest) (i := i) rfl rfl rfl hi
-    refine R.step (t := tk .lbracket) (rest := tk .number txt :: tk .rbracket :: rest) (by simp) (by rw [T_power]; simpa [specPow] using hk55) hled ?_
-    simpa [node, advance_cons, List.reverse_append] using hloop
+  refine left_operand gl hwl 55 k hk55 (tk .lbracket) rfl bef _ o ?_
+  generalize decide (l.rp < 55) = cl at hloop ⊢
+  have hled := R.ledIndex (tbl := T) (node := node l)
+    (p := ⟨tk .lbracket :: (wrapIf cl (ppE l)).reverse ++ bef, tk .number txt :: tk .rbracket :: rest⟩)
+    (n := tk .number txt) (rb := tk .rbracket) (rest := rest) (i := i) rfl rfl rfl hi
+  refine R.step (t := tk .lbracket) (rest := tk .number txt :: tk .rbracket :: rest) (by simp) (by rw [T_power]; simpa [specPow] using hk55) hled ?_
+  simpa [node, advance_cons, List.reverse_append] using hloop
 
-/-- `l.r` -/
-theorem good_sub {l r : PE N} (gl : GoodE l) (gr : GoodDot r)
-    (hstart : ∀ full, ∃ t ts, ppE full r = t :: ts ∧ t.ty ≠ .star) : GoodE (.sub l r) := by
-  intro hw full k bef rest o hk hf hloop
-  have ⟨hd, hwl, hwr⟩ : dotOK r = true ∧ wf l ∧ wf r := by simpa [wf] using hw
-  have hk40 : k < 40 := by simpa [PE.level] using hk
-  obtain ⟨t, rest', rfl, ht⟩ := hf
-  have ht40 : T.power t.ty ≤ 40 := by simp only [rp, PE.level] at ht; omega
-  generalize hcl : (full || decide (PE.level l < 40)) = cl
-  have e1 : ppE full (.sub l r) = wrapIf cl (ppE full l) ++ tk .dot :: ppE full r := by
-    simp [ppE, wrapIf, hcl]
-  rw [e1] at hloop ⊢
-  rw [List.append_assoc]
-  refine operand_loop gl hwl full cl k bef _ o ?_ ?_
-  · intro h
-    rw [h] at hcl
-    have : ¬ PE.level l < 40 := by simpa using (Bool.or_eq_false_iff.mp hcl).2
-    refine ⟨by omega, tk .dot, _, rfl, ?_⟩
-    rw [T_power]; simp only [rp, tk_ty, specPow]; omega
-  · obtain ⟨t0, ts0, hs, hns⟩ := hstart full
-    have hdot := gr hwr hd full (tk .dot :: ((wrapIf cl (ppE full l)).reverse ++ bef)) (t :: rest') ⟨t, rest', rfl, ht40⟩
-    have hled : R T (.led (tk .dot).ty (node l) (⟨(wrapIf cl (ppE full l)).reverse ++ bef, tk .dot :: ppE full r ++ t :: rest'⟩ : PState).advance)
-        (.node (.sub (node l) (node r)) ⟨(ppE full r).reverse ++ tk .dot :: ((wrapIf cl (ppE full l)).reverse ++ bef), t :: rest'⟩) := by
-      rw [advance_cons_append]
-      exact R.ledDot (t := t0) (rest := ts0 ++ t :: rest') (by simp [hs]) hns hdot
-    refine R.step (t := tk .dot) (rest := ppE full r ++ t :: rest') (by simp) (by rw [T_power]; simpa [specPow] using hk40) hled ?_
-    simpa [node, List.reverse_append] using hloop
+/-! ### the first token -/
+
+def HeadIs (ty : TokType) (l : List Token) : Prop := ∃ t ts, l = t :: ts ∧ t.ty = ty
+theorem headIs_cons (t : Token) (ts : List Token) : HeadIs t.ty (t :: ts) := ⟨t, ts, rfl, rfl⟩
+theorem headIs_tk (ty : TokType) (v : Bytes) (ts : List Token) : HeadIs ty (tk ty v :: ts) := ⟨_, ts, rfl, rfl⟩
+theorem headIs_append {ty : TokType} {l : List Token} (r : List Token) (h : HeadIs ty l) : HeadIs ty (l ++ r) := by
+  obtain ⟨t, ts, rfl, ht⟩ := h; exact ⟨t, ts ++ r, rfl, ht⟩
+theorem headIs_parens (ts : List Token) : HeadIs .lparen (parens ts) := headIs_append _ (headIs_tk _ _ _)
+
+omit [NumOps N] in
+theorem headIs_left (P : Nat) (l : PE N) (r : List Token) (ih : HeadIs (first l) (ppE l)) :
+    HeadIs (if l.rp < P then TokType.lparen else first l) ((if l.rp < P then parens (ppE l) else ppE l) ++ r) := by
+  by_cases hc : l.rp < P
+  · simp only [hc, if_true]; exact headIs_append _ (headIs_parens _)
+  · simp only [hc, if_false]; exact headIs_append _ ih
+
+omit [NumOps N] in
+theorem ppE_first : (e : PE N) → HeadIs (first e) (ppE e)
+  | .ident n => by simp only [ppE, first]; exact headIs_tk _ _ _
+  | .quoted n => by simp only [ppE, first]; exact headIs_tk _ _ _
+  | .raw s => by simp only [ppE, first]; exact headIs_tk _ _ _
+  | .lit t v => by simp only [ppE, first]; exact headIs_tk _ _ _
+  | .current => by simp only [ppE, first]; exact headIs_tk _ _ _
+  | .idx0 txt i => by simp only [ppE, first]; exact headIs_tk _ _ _
+  | .not e => by simp only [ppE, first]; exact headIs_tk _ _ _
+  | .call n args => by simp only [ppE, first]; exact headIs_append _ (headIs_tk _ _ _)
+  | .list x xs => by simp only [ppE, first]; exact headIs_append _ (headIs_append _ (headIs_tk _ _ _))
+  | .hash q k v kvs => by simp only [ppE, first]; exact headIs_append _ (headIs_append _ (headIs_tk _ _ _))
+  | .paren e => by simp only [ppE, first]; exact headIs_parens _
+  | .star0 r => by simp only [ppE, first]; exact headIs_tk _ _ _
+  | .bstar0 r => by simp only [ppE, first]; exact headIs_tk _ _ _
+  | .flat0 r => by simp only [ppE, first]; exact headIs_tk _ _ _
+  | .slice0 s r => by simp only [ppE, first]; exact headIs_append _ (headIs_tk _ _ _)
+  | .filt0 c r => by simp only [ppE, first]; exact headIs_append _ (headIs_tk _ _ _)
+  | .idx l txt i => by simp only [ppE, first]; exact headIs_left 55 l _ (ppE_first l)
+  | .sub l r => by simp only [ppE, first]; exact headIs_left 40 l _ (ppE_first l)
+  | .bin op l r => by simp only [ppE, first]; exact headIs_left op.pow l _ (ppE_first l)
+  | .dstar l r => by simp only [ppE, first]; exact headIs_left 40 l _ (ppE_first l)
+  | .bstar l r => by simp only [ppE, first]; exact headIs_left 55 l _ (ppE_first l)
+  | .flat l r => by simp only [ppE, first]; exact headIs_left 9 l _ (ppE_first l)
+  | .slice l s r => by simp only [ppE, first]; exact headIs_append _ (headIs_left 55 l _ (ppE_first l))
+  | .filt l c r => by simp only [ppE, first]; exact headIs_append _ (headIs_left 21 l _ (ppE_first l))
 
 /-- Token types an expression can begin with. -/
 def startTy : TokType → Bool
-  | .uident | .qident | .stringLiteral | .jsonLiteral | .current | .lbracket | .not | .lparen | .lbrace => true
+  | .uident | .qident | .stringLiteral | .jsonLiteral | .current | .lbracket | .not | .lparen | .lbrace
+  | .star | .flatten | .filter => true
   | _ => false
 
-def HeadOK (l : List Token) : Prop := ∃ t ts, l = t :: ts ∧ startTy t.ty = true
-theorem headOK_cons (t : Token) (ts : List Token) (h : startTy t.ty = true) : HeadOK (t :: ts) := ⟨t, ts, rfl, h⟩
-theorem headOK_append {l : List Token} (r : List Token) (h : HeadOK l) : HeadOK (l ++ r) := by
-  obtain ⟨t, ts, rfl, ht⟩ := h; exact ⟨t, ts ++ r, rfl, ht⟩
-theorem headOK_parens (ts : List Token) : HeadOK (parens ts) := headOK_append _ (headOK_cons _ _ rfl)
+omit [NumOps N] in
+theorem first_start : (e : PE N) → startTy (first e) = true
+  | .ident _ | .quoted _ | .raw _ | .lit _ _ | .current | .idx0 _ _ | .not _ | .call _ _ | .list _ _ | .hash _ _ _ _
+  | .paren _ | .star0 _ | .bstar0 _ | .flat0 _ | .slice0 _ _ | .filt0 _ _ => rfl
+  | .idx l _ _ => by simp only [first]; split; rfl; exact first_start l
+  | .sub l _ => by simp only [first]; split; rfl; exact first_start l
+  | .bin _ l _ => by simp only [first]; split; rfl; exact first_start l
+  | .dstar l _ => by simp only [first]; split; rfl; exact first_start l
+  | .bstar l _ => by simp only [first]; split; rfl; exact first_start l
+  | .flat l _ => by simp only [first]; split; rfl; exact first_start l
+  | .slice l _ _ => by simp only [first]; split; rfl; exact first_start l
+  | .filt l _ _ => by simp only [first]; split; rfl; exact first_start l
 
-theorem ppE_start (full : Bool) : (e : PE N) → HeadOK (ppE full e)
-  | .ident n => by simp only [ppE]; exact headOK_cons _ _ rfl
-  | .quoted n => by simp only [ppE]; exact headOK_cons _ _ rfl
-  | .raw s => by simp only [ppE]; exact headOK_cons _ _ rfl
-  | .lit t v => by simp only [ppE]; exact headOK_cons _ _ rfl
-  | .current => by simp only [ppE]; exact headOK_cons _ _ rfl
-  | .idx0 txt i => by simp only [ppE]; exact headOK_cons _ _ rfl
-  | .not e => by simp only [ppE]; exact headOK_cons _ _ rfl
-  | .call n args => by simp only [ppE]; exact headOK_append _ (headOK_cons _ _ rfl)
-  | .list x xs => by simp only [ppE]; exact headOK_append _ (headOK_append _ (headOK_cons _ _ rfl))
-  | .hash q k v kvs => by simp only [ppE]; exact headOK_append _ (headOK_append _ (headOK_cons _ _ rfl))
-  | .idx l txt i => by
-    have ih := ppE_start full l
-    simp only [ppE]
-    refine headOK_append _ ?_
-    split
-    · exact headOK_parens _
-    · exact ih
-  | .sub l r => by
-    have ih := ppE_start full l
-    simp only [ppE]
-    refine headOK_append _ ?_
-    split
-    · exact headOK_parens _
-    · exact ih
-  | .bin op l r => by
-    have ih := ppE_start full l
-    simp only [ppE]
-    refine headOK_append _ ?_
-    split
-    · exact headOK_parens _
-    · exact ih
+def HeadOK (l : List Token) : Prop := ∃ t ts, l = t :: ts ∧ startTy t.ty = true
 
 omit [NumOps N] in
-theorem head_level : (e : PE N) → dotHead e = true → 55 ≤ e.level
-  | .ident _, _ => by simp [PE.level]
-  | .quoted _, _ => by simp [PE.level]
-  | .call _ _, _ => by simp [PE.level]
-  | .idx _ _ _, _ => by simp [PE.level]
-  | .raw _, h | .lit _ _, h | .current, h | .idx0 _ _, h | .sub _ _, h | .not _, h | .bin _ _ _, h
-  | .list _ _, h | .hash _ _ _ _, h => by simp [dotHead] at h
+theorem ppE_start (e : PE N) : HeadOK (ppE e) := by
+  obtain ⟨t, ts, h, ht⟩ := ppE_first e
+  exact ⟨t, ts, h, by rw [ht]; exact first_start e⟩
 
-theorem head_start (full : Bool) : (e : PE N) → dotHead e = true →
-    ∃ t ts, ppE full e = t :: ts ∧ (t.ty = .qident ∨ t.ty = .uident)
-  | .ident n, _ => ⟨tk .uident n, [], by simp [ppE], Or.inr rfl⟩
-  | .quoted n, _ => ⟨tk .qident n, [], by simp [ppE], Or.inl rfl⟩
-  | .call n args, _ => ⟨tk .uident n, tk .lparen :: (ppArgs full args ++ [tk .rparen]), by simp [ppE], Or.inr rfl⟩
-  | .idx l txt i, h => by
-    have hl : dotHead l = true := by simpa [dotHead] using h
-    obtain ⟨t, ts, e, ht⟩ := head_start full l hl
-    have := head_level l hl
-    refine ⟨t, ts ++ [tk .lbracket, tk .number txt, tk .rbracket], ?_, ht⟩
-    simp only [ppE, hl]
-    rw [if_neg (by simp; omega)]
-    simp [e]
-  | .raw _, h | .lit _ _, h | .current, h | .idx0 _ _, h | .sub _ _, h | .not _, h | .bin _ _ _, h
-  | .list _ _, h | .hash _ _ _ _, h => by simp [dotHead] at h
+theorem start_ne {t : Token} (h : startTy t.ty = true) :
+    t.ty ≠ .expref ∧ t.ty ≠ .rparen ∧ t.ty ≠ .number ∧ t.ty ≠ .colon ∧ t.ty ≠ .rbracket ∧ t.ty ≠ .comma := by
+  cases hh : t.ty <;> simp [hh, startTy] at h ⊢
 
-/-- The right-hand side of a dot that starts with an identifier. -/
-theorem dot_head {e : PE N} (ge : GoodE e) (hh : dotHead e = true) : GoodDot e := by
-  intro hw _ full bef rest hf
+/-! ### the right-hand side of a dot -/
+
+def GoodDot (e : PE N) : Prop :=
+  wf e → ∀ (bp : Nat) (allowStar : Bool), dotOK bp allowStar e = true → ∀ (bef rest : List Token),
+    (∃ t rest', rest = t :: rest' ∧ specPow t.ty ≤ (if e.isListOrHash then 59 else min bp e.rp)) →
+    R T (.dot bp ⟨bef, ppE e ++ rest⟩) (.node (node e) ⟨(ppE e).reverse ++ bef, rest⟩)
+
+/-- a dot right-hand side that is not a list or hash: an expression read at level `bp` -/
+theorem dot_of_good {e : PE N} (ge : GoodE e) (hnl : e.isListOrHash = false) : GoodDot e := by
+  intro hw bp allowStar hd bef rest hf
   obtain ⟨t, rest', rfl, ht⟩ := hf
-  rw [T_power] at ht
-  obtain ⟨t0, ts0, hs, hty⟩ := head_start full e hh
-  have hl := head_level e hh
-  have := operand_expr ge hw full false 40 (fun _ => ⟨by omega, by simp only [rp]; omega⟩) bef t rest' ht
-  simp only [wrapIf] at this
-  exact R.dotIdent (t := t0) (rest := ts0 ++ t :: rest') (by simp [hs]) hty this
+  simp only [hnl, Bool.false_eq_true, if_false] at ht
+  simp only [dotOK, hnl, Bool.false_or, Bool.and_eq_true, Bool.or_eq_true, beq_iff_eq, decide_eq_true_eq] at hd
+  obtain ⟨hfirst, hlev⟩ := hd
+  obtain ⟨t0, ts0, hs, hty⟩ := ppE_first e
+  have hx := operand_expr ge hw false bp bef t rest' (fun _ => ⟨hlev, by omega⟩) (by omega)
+  simp only [wrapIf] at hx
+  rcases hfirst with (h | h) | ⟨_, h⟩
+  · exact R.dotIdent (t := t0) (rest := ts0 ++ t :: rest') (by simp [hs]) (Or.inr (hty.trans h)) hx
+  · exact R.dotIdent (t := t0) (rest := ts0 ++ t :: rest') (by simp [hs]) (Or.inl (hty.trans h)) hx
+  · exact R.dotStar (t := t0) (rest := ts0 ++ t :: rest') (by simp [hs]) (hty.trans h) hx
 
-theorem dot_not_head {e : PE N} (h : dotOK e = false) : GoodDot e := by
-  intro _ h'; rw [h] at h'; cases h'
+/-- `l.r` -/
+theorem good_sub {l r : PE N} (gl : GoodE l) (gr : GoodDot r) : GoodE (.sub l r) := by
+  intro hw k bef rest o hk hf hloop
+  have ⟨hd, hwl, hwr⟩ : dotOK 40 false r = true ∧ wf l ∧ wf r := by simpa [wf] using hw
+  have hk40 : k < 40 := by simpa [PE.level] using hk
+  obtain ⟨t, rest', rfl, ht⟩ := hf
+  have e1 : ppE (.sub l r) = wrapIf (decide (l.rp < 40)) (ppE l) ++ tk .dot :: ppE r := by
+    simp [ppE, wrapIf]
+  rw [e1] at hloop ⊢
+  rw [List.append_assoc]
+  refine left_operand gl hwl 40 k hk40 (tk .dot) rfl bef _ o ?_
+  generalize decide (l.rp < 40) = cl at hloop ⊢
+  obtain ⟨t0, ts0, hs, hty⟩ := ppE_first r
+  have hns : t0.ty ≠ .star := by
+    rw [hty]
+    simp only [dotOK, Bool.or_eq_true, Bool.and_eq_true, beq_iff_eq, Bool.false_eq_true, false_and, or_false] at hd
+    rcases hd with h | ⟨h | h, _⟩
+    · cases r <;> simp [PE.isListOrHash] at h <;> simp [first]
+    · rw [h]; simp
+    · rw [h]; simp
+  have hdot := gr hwr 40 false hd (tk .dot :: ((wrapIf cl (ppE l)).reverse ++ bef)) (t :: rest') ⟨t, rest', rfl, by
+    simp only [PE.rp] at ht
+    split at ht <;> rename_i h <;> simp only [h, if_true, Bool.false_eq_true, if_false] <;> omega⟩
+  have hled : R T (.led (tk .dot).ty (node l) (⟨(wrapIf cl (ppE l)).reverse ++ bef, tk .dot :: ppE r ++ t :: rest'⟩ : PState).advance)
+      (.node (.sub (node l) (node r)) ⟨(ppE r).reverse ++ tk .dot :: ((wrapIf cl (ppE l)).reverse ++ bef), t :: rest'⟩) := by
+    rw [advance_cons_append]
+    exact R.ledDot (t := t0) (rest := ts0 ++ t :: rest') (by simp [hs]) hns hdot
+  refine R.step (t := tk .dot) (rest := ppE r ++ t :: rest') (by simp) (by rw [T_power]; simpa [specPow] using hk40) hled ?_
+  simpa [node, List.reverse_append] using hloop
 
 theorem ty_comma : specPow (tk .comma).ty = 0 := rfl
 
 /-- the elements of a multi-select list -/
-theorem msl_list (full : Bool) : ∀ (xs : List (PE N)) (x : PE N), GoodE x → GoodList xs → wf x → wfList xs →
+theorem msl_list : ∀ (xs : List (PE N)) (x : PE N), GoodE x → GoodList xs → wf x → wfList xs →
     ∀ (acc : List (Node N)) (bef rest : List Token),
-    R T (.msl ⟨bef, ppE full x ++ (ppTail full xs ++ tk .rbracket :: rest)⟩ acc)
+    R T (.msl ⟨bef, ppE x ++ (ppTail xs ++ tk .rbracket :: rest)⟩ acc)
       (.node (.msList (acc.reverse ++ node x :: nodeList xs))
-        ⟨tk .rbracket :: ((ppTail full xs).reverse ++ ((ppE full x).reverse ++ bef)), rest⟩)
+        ⟨tk .rbracket :: ((ppTail xs).reverse ++ ((ppE x).reverse ++ bef)), rest⟩)
   | [], x, gx, _, hx, _, acc, bef, rest => by
-    have h := elem_expr gx hx full bef (tk .rbracket) rest rfl
+    have h := elem_expr gx hx bef (tk .rbracket) rest rfl
     have := R.mslLast (tbl := T) (acc := acc) (t := tk .rbracket) (rest := rest) h rfl rfl
     simpa [ppTail, nodeList, advance_cons] using this
   | y :: ys, x, gx, gl, hx, hl, acc, bef, rest => by
-    have h := elem_expr gx hx full bef (tk .comma) (ppE full y ++ (ppTail full ys ++ tk .rbracket :: rest)) rfl
-    have ih := msl_list full ys y gl.1 gl.2 hl.1 hl.2 (node x :: acc) (tk .comma :: ((ppE full x).reverse ++ bef)) rest
-    have := R.mslMore (tbl := T) (acc := acc) (t := tk .comma) (rest := ppE full y ++ (ppTail full ys ++ tk .rbracket :: rest)) h rfl rfl
+    have h := elem_expr gx hx bef (tk .comma) (ppE y ++ (ppTail ys ++ tk .rbracket :: rest)) rfl
+    have ih := msl_list ys y gl.1 gl.2 hl.1 hl.2 (node x :: acc) (tk .comma :: ((ppE x).reverse ++ bef)) rest
+    have := R.mslMore (tbl := T) (acc := acc) (t := tk .comma) (rest := ppE y ++ (ppTail ys ++ tk .rbracket :: rest)) h rfl rfl
       (by rw [advance_cons]; exact ih)
     simpa [ppTail, nodeList, List.reverse_append] using this
 
@@ -411,77 +488,73 @@ theorem keyTok_ty (q : Bool) (k : Bytes) : ((keyTok q k).ty = .uident ∨ (keyTo
   cases q <;> simp [keyTok]
 
 /-- the pairs of a multi-select hash -/
-theorem msh_list (full : Bool) : ∀ (kvs : List (Bool × Bytes × PE N)) (q : Bool) (k : Bytes) (v : PE N),
+theorem msh_list : ∀ (kvs : List (Bool × Bytes × PE N)) (q : Bool) (k : Bytes) (v : PE N),
     GoodE v → GoodKVs kvs → wf v → wfKVs kvs →
     ∀ (acc : List (Bytes × Node N)) (bef rest : List Token),
-    R T (.msh ⟨bef, keyTok q k :: tk .colon :: (ppE full v ++ (ppKVs full kvs ++ tk .rbrace :: rest))⟩ acc)
+    R T (.msh ⟨bef, keyTok q k :: tk .colon :: (ppE v ++ (ppKVs kvs ++ tk .rbrace :: rest))⟩ acc)
       (.node (.msHash (acc.reverse ++ (k, node v) :: nodeKVs kvs))
-        ⟨tk .rbrace :: ((ppKVs full kvs).reverse ++ ((ppE full v).reverse ++ (tk .colon :: keyTok q k :: bef))), rest⟩)
+        ⟨tk .rbrace :: ((ppKVs kvs).reverse ++ ((ppE v).reverse ++ (tk .colon :: keyTok q k :: bef))), rest⟩)
   | [], q, k, v, gv, _, hv, _, acc, bef, rest => by
-    have h := elem_expr gv hv full (tk .colon :: keyTok q k :: bef) (tk .rbrace) rest rfl
-    have := R.mshLast (tbl := T) (acc := acc) (p := ⟨bef, keyTok q k :: tk .colon :: (ppE full v ++ tk .rbrace :: rest)⟩)
+    have h := elem_expr gv hv (tk .colon :: keyTok q k :: bef) (tk .rbrace) rest rfl
+    have := R.mshLast (tbl := T) (acc := acc) (p := ⟨bef, keyTok q k :: tk .colon :: (ppE v ++ tk .rbrace :: rest)⟩)
       (t := tk .rbrace) (rest := rest) rfl (keyTok_ty q k).1 rfl h rfl rfl
     simpa [ppKVs, nodeKVs, advance_cons, (keyTok_ty q k).2] using this
   | (q', k', v') :: more, q, k, v, gv, gl, hv, hl, acc, bef, rest => by
-    have h := elem_expr gv hv full (tk .colon :: keyTok q k :: bef) (tk .comma)
-      (keyTok q' k' :: tk .colon :: (ppE full v' ++ (ppKVs full more ++ tk .rbrace :: rest))) rfl
-    have ih := msh_list full more q' k' v' gl.1 gl.2 hl.1 hl.2 ((k, node v) :: acc)
-      (tk .comma :: ((ppE full v).reverse ++ (tk .colon :: keyTok q k :: bef))) rest
+    have h := elem_expr gv hv (tk .colon :: keyTok q k :: bef) (tk .comma)
+      (keyTok q' k' :: tk .colon :: (ppE v' ++ (ppKVs more ++ tk .rbrace :: rest))) rfl
+    have ih := msh_list more q' k' v' gl.1 gl.2 hl.1 hl.2 ((k, node v) :: acc)
+      (tk .comma :: ((ppE v).reverse ++ (tk .colon :: keyTok q k :: bef))) rest
     have := R.mshMore (tbl := T) (acc := acc)
-      (p := ⟨bef, keyTok q k :: tk .colon :: (ppE full v ++ tk .comma :: keyTok q' k' :: tk .colon :: (ppE full v' ++ (ppKVs full more ++ tk .rbrace :: rest)))⟩)
+      (p := ⟨bef, keyTok q k :: tk .colon :: (ppE v ++ tk .comma :: keyTok q' k' :: tk .colon :: (ppE v' ++ (ppKVs more ++ tk .rbrace :: rest)))⟩)
       (t := tk .comma) rfl (keyTok_ty q k).1 rfl h rfl rfl (by rw [advance_cons, (keyTok_ty q k).2]; exact ih)
     simpa [ppKVs, nodeKVs, List.reverse_append] using this
 
-theorem start_ne {t : Token} (h : startTy t.ty = true) :
-    t.ty ≠ .star ∧ t.ty ≠ .expref ∧ t.ty ≠ .rparen ∧ t.ty ≠ .number ∧ t.ty ≠ .colon := by
-  cases hh : t.ty <;> simp [hh, startTy] at h ⊢
-
 def refTok (b : Bool) : List Token := if b then [tk .expref] else []
 
-theorem ppArgs_cons (full : Bool) (b : Bool) (e : PE N) (a : Bool × PE N) (as : List (Bool × PE N)) :
-    ppArgs full ((b, e) :: a :: as) = refTok b ++ (ppE full e ++ tk .comma :: ppArgs full (a :: as)) := by
+theorem ppArgs_cons (b : Bool) (e : PE N) (a : Bool × PE N) (as : List (Bool × PE N)) :
+    ppArgs ((b, e) :: a :: as) = refTok b ++ (ppE e ++ tk .comma :: ppArgs (a :: as)) := by
   simp [ppArgs, refTok]
 
-theorem ppArgs_one (full : Bool) (b : Bool) (e : PE N) : ppArgs full [(b, e)] = refTok b ++ ppE full e := by
+theorem ppArgs_one (b : Bool) (e : PE N) : ppArgs [(b, e)] = refTok b ++ ppE e := by
   simp [ppArgs, refTok]
 
 /-- a non-empty argument list starts with `&` or with the start of an expression -/
-theorem ppArgs_start (full : Bool) (a : Bool × PE N) (as : List (Bool × PE N)) (rest : List Token) :
-    ∃ t ts, ppArgs full (a :: as) ++ rest = t :: ts ∧ t.ty ≠ .rparen := by
+theorem ppArgs_start (a : Bool × PE N) (as : List (Bool × PE N)) (rest : List Token) :
+    ∃ t ts, ppArgs (a :: as) ++ rest = t :: ts ∧ t.ty ≠ .rparen := by
   obtain ⟨b, e⟩ := a
-  obtain ⟨t, ts, h, ht⟩ := ppE_start full e
+  obtain ⟨t, ts, h, ht⟩ := ppE_start e
   cases b with
   | true => cases as with
-    | nil => exact ⟨tk .expref, ppE full e ++ rest, by simp [ppArgs_one, refTok], by simp⟩
-    | cons a as => exact ⟨tk .expref, ppE full e ++ tk .comma :: (ppArgs full (a :: as) ++ rest), by simp [ppArgs_cons, refTok], by simp⟩
+    | nil => exact ⟨tk .expref, ppE e ++ rest, by simp [ppArgs_one, refTok], by simp⟩
+    | cons a as => exact ⟨tk .expref, ppE e ++ tk .comma :: (ppArgs (a :: as) ++ rest), by simp [ppArgs_cons, refTok], by simp⟩
   | false => cases as with
-    | nil => exact ⟨t, ts ++ rest, by simp [ppArgs_one, refTok, h], (start_ne ht).2.2.1⟩
-    | cons a as => exact ⟨t, ts ++ tk .comma :: (ppArgs full (a :: as) ++ rest), by simp [ppArgs_cons, refTok, h], (start_ne ht).2.2.1⟩
+    | nil => exact ⟨t, ts ++ rest, by simp [ppArgs_one, refTok, h], (start_ne ht).2.1⟩
+    | cons a as => exact ⟨t, ts ++ tk .comma :: (ppArgs (a :: as) ++ rest), by simp [ppArgs_cons, refTok, h], (start_ne ht).2.1⟩
 
 /-- one argument up to the token `t` (a comma or the closing parenthesis) -/
-theorem arg_expr (full : Bool) (b : Bool) {e : PE N} (ge : GoodE e) (hw : wf e) (bef : List Token) (t : Token)
+theorem arg_expr (b : Bool) {e : PE N} (ge : GoodE e) (hw : wf e) (bef : List Token) (t : Token)
     (rest' : List Token) (ht : specPow t.ty = 0) :
-    ∃ t0 rest0, refTok b ++ (ppE full e ++ t :: rest') = t0 :: rest0 ∧ (t0.ty = .expref ↔ b = true) ∧
-      R T (.expr 0 (if b then (⟨bef, refTok b ++ (ppE full e ++ t :: rest')⟩ : PState).advance else ⟨bef, refTok b ++ (ppE full e ++ t :: rest')⟩))
-        (.node (node e) ⟨(ppE full e).reverse ++ ((refTok b).reverse ++ bef), t :: rest'⟩) := by
-  obtain ⟨t1, ts1, h1, hs1⟩ := ppE_start full e
+    ∃ t0 rest0, refTok b ++ (ppE e ++ t :: rest') = t0 :: rest0 ∧ (t0.ty = .expref ↔ b = true) ∧
+      R T (.expr 0 (if b then (⟨bef, refTok b ++ (ppE e ++ t :: rest')⟩ : PState).advance else ⟨bef, refTok b ++ (ppE e ++ t :: rest')⟩))
+        (.node (node e) ⟨(ppE e).reverse ++ ((refTok b).reverse ++ bef), t :: rest'⟩) := by
+  obtain ⟨t1, ts1, h1, hs1⟩ := ppE_start e
   cases b with
   | true =>
-    refine ⟨tk .expref, ppE full e ++ t :: rest', by simp [refTok], by simp, ?_⟩
-    have := elem_expr ge hw full (tk .expref :: bef) t rest' ht
+    refine ⟨tk .expref, ppE e ++ t :: rest', by simp [refTok], by simp, ?_⟩
+    have := elem_expr ge hw (tk .expref :: bef) t rest' ht
     simpa [refTok, advance_cons] using this
   | false =>
-    refine ⟨t1, ts1 ++ t :: rest', by simp [refTok, h1], by simpa using (start_ne hs1).2.1, ?_⟩
-    have := elem_expr ge hw full bef t rest' ht
+    refine ⟨t1, ts1 ++ t :: rest', by simp [refTok, h1], by simpa using (start_ne hs1).1, ?_⟩
+    have := elem_expr ge hw bef t rest' ht
     simpa [refTok] using this
 
 /-- the arguments of a call -/
-theorem args_list (full : Bool) : ∀ (as : List (Bool × PE N)) (a : Bool × PE N), GoodE a.2 → GoodArgs as → wf a.2 → wfArgs as →
+theorem args_list : ∀ (as : List (Bool × PE N)) (a : Bool × PE N), GoodE a.2 → GoodArgs as → wf a.2 → wfArgs as →
     ∀ (bef rest : List Token),
-    R T (.args ⟨bef, ppArgs full (a :: as) ++ tk .rparen :: rest⟩)
-      (.args (nodeArgs (a :: as)) ⟨(ppArgs full (a :: as)).reverse ++ bef, tk .rparen :: rest⟩)
+    R T (.args ⟨bef, ppArgs (a :: as) ++ tk .rparen :: rest⟩)
+      (.args (nodeArgs (a :: as)) ⟨(ppArgs (a :: as)).reverse ++ bef, tk .rparen :: rest⟩)
   | [], (b, e), ge, _, hw, _, bef, rest => by
-    obtain ⟨t0, rest0, h0, hb, hx⟩ := arg_expr full b (e := e) ge hw bef (tk .rparen) rest rfl
+    obtain ⟨t0, rest0, h0, hb, hx⟩ := arg_expr b (e := e) ge hw bef (tk .rparen) rest rfl
     rw [ppArgs_one, List.append_assoc]
     cases b with
     | true =>
@@ -493,38 +566,38 @@ theorem args_list (full : Bool) : ∀ (as : List (Bool × PE N)) (a : Bool × PE
       have := R.argPlainLast (tbl := T) (t := tk .rparen) (rest := rest) h0 (by simpa using hb) hx rfl rfl
       simpa [nodeArgs, List.reverse_append] using this
   | a2 :: as, (b, e), ge, gl, hw, hl, bef, rest => by
-    obtain ⟨t0, rest0, h0, hb, hx⟩ := arg_expr full b (e := e) ge hw bef (tk .comma) (ppArgs full (a2 :: as) ++ tk .rparen :: rest) rfl
-    have ih := args_list full as a2 gl.1 gl.2 hl.1 hl.2 (tk .comma :: ((ppE full e).reverse ++ ((refTok b).reverse ++ bef))) rest
-    obtain ⟨t2, rest2, h2, hn2⟩ := ppArgs_start full a2 as (tk .rparen :: rest)
+    obtain ⟨t0, rest0, h0, hb, hx⟩ := arg_expr b (e := e) ge hw bef (tk .comma) (ppArgs (a2 :: as) ++ tk .rparen :: rest) rfl
+    have ih := args_list as a2 gl.1 gl.2 hl.1 hl.2 (tk .comma :: ((ppE e).reverse ++ ((refTok b).reverse ++ bef))) rest
+    obtain ⟨t2, rest2, h2, hn2⟩ := ppArgs_start a2 as (tk .rparen :: rest)
     rw [ppArgs_cons]
     simp only [List.append_assoc, List.cons_append]
     cases b with
     | true =>
       simp only [↓reduceIte] at hx
-      have := R.argRefMore (tbl := T) (t := tk .comma) (rest := ppArgs full (a2 :: as) ++ tk .rparen :: rest) h0 (hb.mpr rfl)
+      have := R.argRefMore (tbl := T) (t := tk .comma) (rest := ppArgs (a2 :: as) ++ tk .rparen :: rest) h0 (hb.mpr rfl)
         hx rfl rfl (t2 := t2) (rest2 := rest2) (by rw [advance_cons]; exact h2) hn2 (by rw [advance_cons]; exact ih)
       simpa [nodeArgs, List.reverse_append, ppArgs_cons] using this
     | false =>
       simp only [Bool.false_eq_true, ↓reduceIte] at hx
-      have := R.argPlainMore (tbl := T) (t := tk .comma) (rest := ppArgs full (a2 :: as) ++ tk .rparen :: rest) h0 (by simpa using hb)
+      have := R.argPlainMore (tbl := T) (t := tk .comma) (rest := ppArgs (a2 :: as) ++ tk .rparen :: rest) h0 (by simpa using hb)
         hx rfl rfl (t2 := t2) (rest2 := rest2) (by rw [advance_cons]; exact h2) hn2 (by rw [advance_cons]; exact ih)
       simpa [nodeArgs, List.reverse_append, ppArgs_cons] using this
 
 /-- `name(args)` -/
 theorem good_call (n : Bytes) {args : List (Bool × PE N)} (ga : GoodArgs args) : GoodE (.call n args) := by
-  intro hw full k bef rest o hk _ hloop
+  intro hw k bef rest o hk _ hloop
   have hwa : wfArgs args := by simpa [wf] using hw
   have hk60 : k < 60 := by simpa [PE.level] using hk
-  have hn : R T (.nud (tk .uident n) (⟨bef, tk .uident n :: tk .lparen :: (ppArgs full args ++ tk .rparen :: rest)⟩ : PState).advance)
-      (.node (N := N) (.field n) ⟨tk .uident n :: bef, tk .lparen :: (ppArgs full args ++ tk .rparen :: rest)⟩) := by
-    have := R.nudIdent (tbl := T) (N := N) (tok := tk .uident n) (p := ⟨tk .uident n :: bef, tk .lparen :: (ppArgs full args ++ tk .rparen :: rest)⟩) rfl
+  have hn : R T (.nud (tk .uident n) (⟨bef, tk .uident n :: tk .lparen :: (ppArgs args ++ tk .rparen :: rest)⟩ : PState).advance)
+      (.node (N := N) (.field n) ⟨tk .uident n :: bef, tk .lparen :: (ppArgs args ++ tk .rparen :: rest)⟩) := by
+    have := R.nudIdent (tbl := T) (N := N) (tok := tk .uident n) (p := ⟨tk .uident n :: bef, tk .lparen :: (ppArgs args ++ tk .rparen :: rest)⟩) rfl
     simpa [advance_cons] using this
-  have e1 : ppE full (.call n args) ++ rest = tk .uident n :: tk .lparen :: (ppArgs full args ++ tk .rparen :: rest) := by
+  have e1 : ppE (.call n args) ++ rest = tk .uident n :: tk .lparen :: (ppArgs args ++ tk .rparen :: rest) := by
     simp [ppE]
   rw [e1]
   refine R.expr (tok := tk .uident n) rfl hn ?_
-  have hled : R T (.led (tk .lparen).ty (.field n) (⟨tk .uident n :: bef, tk .lparen :: (ppArgs full args ++ tk .rparen :: rest)⟩ : PState).advance)
-      (.node (.call n (nodeArgs args)) ⟨tk .rparen :: ((ppArgs full args).reverse ++ (tk .lparen :: tk .uident n :: bef)), rest⟩) := by
+  have hled : R T (.led (tk .lparen).ty (.field n) (⟨tk .uident n :: bef, tk .lparen :: (ppArgs args ++ tk .rparen :: rest)⟩ : PState).advance)
+      (.node (.call n (nodeArgs args)) ⟨tk .rparen :: ((ppArgs args).reverse ++ (tk .lparen :: tk .uident n :: bef)), rest⟩) := by
     rw [advance_cons]
     cases args with
     | nil =>
@@ -532,28 +605,30 @@ theorem good_call (n : Bytes) {args : List (Bool × PE N)} (ga : GoodArgs args) 
         (t := tk .rparen) (rest := rest) rfl rfl rfl rfl
       simpa [ppArgs, nodeArgs, advance_cons] using this
     | cons a as =>
-      obtain ⟨t0, rest0, h0, hn0⟩ := ppArgs_start full a as (tk .rparen :: rest)
-      have ha := args_list full as a ga.1 ga.2 hwa.1 hwa.2 (tk .lparen :: tk .uident n :: bef) rest
-      have := R.ledCall (tbl := T) (name := n) (p := ⟨tk .lparen :: tk .uident n :: bef, ppArgs full (a :: as) ++ tk .rparen :: rest⟩)
+      obtain ⟨t0, rest0, h0, hn0⟩ := ppArgs_start a as (tk .rparen :: rest)
+      have ha := args_list as a ga.1 ga.2 hwa.1 hwa.2 (tk .lparen :: tk .uident n :: bef) rest
+      have := R.ledCall (tbl := T) (name := n) (p := ⟨tk .lparen :: tk .uident n :: bef, ppArgs (a :: as) ++ tk .rparen :: rest⟩)
         (t := tk .rparen) (rest := rest) rfl rfl h0 hn0 ha rfl rfl
       simpa [advance_cons] using this
-  refine R.step (t := tk .lparen) (rest := ppArgs full args ++ tk .rparen :: rest) rfl (by rw [T_power]; simpa [specPow] using hk60) hled ?_
+  refine R.step (t := tk .lparen) (rest := ppArgs args ++ tk .rparen :: rest) rfl (by rw [T_power]; simpa [specPow] using hk60) hled ?_
   simpa [ppE, node, List.reverse_append] using hloop
 
 /-- `[x, …]` -/
 theorem good_list {x : PE N} {xs : List (PE N)} (gx : GoodE x) (gl : GoodList xs) : GoodE (.list x xs) := by
-  intro hw full k bef rest o _ _ hloop
-  have ⟨hx, hxs⟩ : wf x ∧ wfList xs := by simpa [wf] using hw
-  obtain ⟨t0, ts0, h0, hs0⟩ := ppE_start full x
-  have hm := msl_list full xs x gx gl hx hxs [] (tk .lbracket :: bef) rest
-  have e1 : ppE full (.list x xs) ++ rest = tk .lbracket :: (ppE full x ++ (ppTail full xs ++ tk .rbracket :: rest)) := by
+  intro hw k bef rest o _ _ hloop
+  have ⟨hfs, hx, hxs⟩ : first x ≠ .star ∧ wf x ∧ wfList xs := by simpa [wf] using hw
+  obtain ⟨t0, ts0, h0, hty0⟩ := ppE_first x
+  have hs0 : startTy t0.ty = true := by rw [hty0]; exact first_start x
+  have hm := msl_list xs x gx gl hx hxs [] (tk .lbracket :: bef) rest
+  have e1 : ppE (.list x xs) ++ rest = tk .lbracket :: (ppE x ++ (ppTail xs ++ tk .rbracket :: rest)) := by
     simp [ppE]
   rw [e1]
-  have hn : R T (.nud (tk .lbracket) (⟨bef, tk .lbracket :: (ppE full x ++ (ppTail full xs ++ tk .rbracket :: rest))⟩ : PState).advance)
-      (.node (node (.list x xs)) ⟨tk .rbracket :: ((ppTail full xs).reverse ++ ((ppE full x).reverse ++ (tk .lbracket :: bef))), rest⟩) := by
+  have hn : R T (.nud (tk .lbracket) (⟨bef, tk .lbracket :: (ppE x ++ (ppTail xs ++ tk .rbracket :: rest))⟩ : PState).advance)
+      (.node (node (.list x xs)) ⟨tk .rbracket :: ((ppTail xs).reverse ++ ((ppE x).reverse ++ (tk .lbracket :: bef))), rest⟩) := by
     rw [advance_cons]
     have hne := start_ne hs0
-    refine R.nudList (t := t0) (rest := ts0 ++ (ppTail full xs ++ tk .rbracket :: rest)) rfl (by simp [h0]) hne.2.2.2.1 hne.2.2.2.2 hne.1 ?_
+    have hstar : t0.ty ≠ .star := by rw [hty0]; exact hfs
+    refine R.nudList (t := t0) (rest := ts0 ++ (ppTail xs ++ tk .rbracket :: rest)) rfl (by simp [h0]) hne.2.2.1 hne.2.2.2.1 hstar ?_
     simpa [node] using hm
   refine R.expr (tok := tk .lbracket) rfl hn ?_
   simpa [ppE, List.reverse_append] using hloop
@@ -561,14 +636,14 @@ theorem good_list {x : PE N} {xs : List (PE N)} (gx : GoodE x) (gl : GoodList xs
 /-- `{k: v, …}` -/
 theorem good_hash (q : Bool) (k : Bytes) {v : PE N} {kvs : List (Bool × Bytes × PE N)} (gv : GoodE v) (gl : GoodKVs kvs) :
     GoodE (.hash q k v kvs) := by
-  intro hw full lvl bef rest o _ _ hloop
+  intro hw lvl bef rest o _ _ hloop
   have ⟨hv, hkvs⟩ : wf v ∧ wfKVs kvs := by simpa [wf] using hw
-  have hm := msh_list full kvs q k v gv gl hv hkvs [] (tk .lbrace :: bef) rest
-  have e1 : ppE full (.hash q k v kvs) ++ rest = tk .lbrace :: keyTok q k :: tk .colon :: (ppE full v ++ (ppKVs full kvs ++ tk .rbrace :: rest)) := by
+  have hm := msh_list kvs q k v gv gl hv hkvs [] (tk .lbrace :: bef) rest
+  have e1 : ppE (.hash q k v kvs) ++ rest = tk .lbrace :: keyTok q k :: tk .colon :: (ppE v ++ (ppKVs kvs ++ tk .rbrace :: rest)) := by
     simp [ppE]
   rw [e1]
-  have hn : R T (.nud (tk .lbrace) (⟨bef, tk .lbrace :: keyTok q k :: tk .colon :: (ppE full v ++ (ppKVs full kvs ++ tk .rbrace :: rest))⟩ : PState).advance)
-      (.node (node (.hash q k v kvs)) ⟨tk .rbrace :: ((ppKVs full kvs).reverse ++ ((ppE full v).reverse ++ (tk .colon :: keyTok q k :: tk .lbrace :: bef))), rest⟩) := by
+  have hn : R T (.nud (tk .lbrace) (⟨bef, tk .lbrace :: keyTok q k :: tk .colon :: (ppE v ++ (ppKVs kvs ++ tk .rbrace :: rest))⟩ : PState).advance)
+      (.node (node (.hash q k v kvs)) ⟨tk .rbrace :: ((ppKVs kvs).reverse ++ ((ppE v).reverse ++ (tk .colon :: keyTok q k :: tk .lbrace :: bef))), rest⟩) := by
     rw [advance_cons]
     refine R.nudHash rfl ?_
     simpa [node] using hm
@@ -576,10 +651,10 @@ theorem good_hash (q : Bool) (k : Bytes) {v : PE N} {kvs : List (Bool × Bytes 
   simpa [ppE, List.reverse_append] using hloop
 
 theorem dot_list {x : PE N} {xs : List (PE N)} (gx : GoodE x) (gl : GoodList xs) : GoodDot (.list x xs) := by
-  intro hw _ full bef rest _
-  have ⟨hx, hxs⟩ : wf x ∧ wfList xs := by simpa [wf] using hw
-  have hm := msl_list full xs x gx gl hx hxs [] (tk .lbracket :: bef) rest
-  have e1 : ppE full (.list x xs) ++ rest = tk .lbracket :: (ppE full x ++ (ppTail full xs ++ tk .rbracket :: rest)) := by
+  intro hw bp _ _ bef rest _
+  have ⟨_, hx, hxs⟩ : first x ≠ .star ∧ wf x ∧ wfList xs := by simpa [wf] using hw
+  have hm := msl_list xs x gx gl hx hxs [] (tk .lbracket :: bef) rest
+  have e1 : ppE (.list x xs) ++ rest = tk .lbracket :: (ppE x ++ (ppTail xs ++ tk .rbracket :: rest)) := by
     simp [ppE]
   rw [e1]
   refine R.dotList (t := tk .lbracket) rfl rfl ?_
@@ -588,40 +663,394 @@ theorem dot_list {x : PE N} {xs : List (PE N)} (gx : GoodE x) (gl : GoodList xs)
 
 theorem dot_hash (q : Bool) (k : Bytes) {v : PE N} {kvs : List (Bool × Bytes × PE N)} (gv : GoodE v) (gl : GoodKVs kvs) :
     GoodDot (.hash q k v kvs) := by
-  intro hw _ full bef rest _
+  intro hw bp _ _ bef rest _
   have ⟨hv, hkvs⟩ : wf v ∧ wfKVs kvs := by simpa [wf] using hw
-  have hm := msh_list full kvs q k v gv gl hv hkvs [] (tk .lbrace :: bef) rest
-  have e1 : ppE full (.hash q k v kvs) ++ rest = tk .lbrace :: keyTok q k :: tk .colon :: (ppE full v ++ (ppKVs full kvs ++ tk .rbrace :: rest)) := by
+  have hm := msh_list kvs q k v gv gl hv hkvs [] (tk .lbrace :: bef) rest
+  have e1 : ppE (.hash q k v kvs) ++ rest = tk .lbrace :: keyTok q k :: tk .colon :: (ppE v ++ (ppKVs kvs ++ tk .rbrace :: rest)) := by
     simp [ppE]
   rw [e1]
   refine R.dotHash (t := tk .lbrace) rfl rfl ?_
   rw [advance_cons]
   simpa [ppE, node, List.reverse_append] using hm
 
-theorem star_of_start {l : List Token} (h : HeadOK l) : ∃ t ts, l = t :: ts ∧ t.ty ≠ .star := by
-  obtain ⟨t, ts, e, ht⟩ := h; exact ⟨t, ts, e, (start_ne ht).1⟩
+/-! ### slices -/
+
+theorem parseIndex_slice (s : SliceTxt) (hw : wfSlice s) (bef rest : List Token) :
+    parseIndexExpression (N := N) ⟨bef, s.toks ++ tk .rbracket :: rest⟩ =
+      .ok (s.node, ⟨tk .rbracket :: (s.toks.reverse ++ bef), rest⟩) := by
+  obtain ⟨a, b, c⟩ := s
+  obtain ⟨ha, hb, hc⟩ := hw
+  cases a with
+  | none =>
+    cases b with
+    | none =>
+      cases c with
+      | none =>
+        simp [SliceTxt.toks, numTok, parseIndexExpression, parseSliceExpression, sliceLoop, PState.cur, PState.look1, PState.curTok,
+          PState.advance, PState.expect, bind, Res.bind, SliceTxt.node]
+      | some c =>
+        obtain ⟨tc, ic⟩ := c
+        simp only [wfNum] at hc
+        simp [SliceTxt.toks, numTok, parseIndexExpression, parseSliceExpression, sliceLoop, PState.cur, PState.look1, PState.curTok,
+          PState.advance, PState.expect, bind, Res.bind, SliceTxt.node, hc]
+    | some b =>
+      obtain ⟨tb, ib⟩ := b
+      simp only [wfNum] at hb
+      cases c with
+      | none =>
+        simp [SliceTxt.toks, numTok, parseIndexExpression, parseSliceExpression, sliceLoop, PState.cur, PState.look1, PState.curTok,
+          PState.advance, PState.expect, bind, Res.bind, SliceTxt.node, hb]
+      | some c =>
+        obtain ⟨tc, ic⟩ := c
+        simp only [wfNum] at hc
+        simp [SliceTxt.toks, numTok, parseIndexExpression, parseSliceExpression, sliceLoop, PState.cur, PState.look1, PState.curTok,
+          PState.advance, PState.expect, bind, Res.bind, SliceTxt.node, hb, hc]
+  | some a =>
+    obtain ⟨ta, ia⟩ := a
+    simp only [wfNum] at ha
+    cases b with
+    | none =>
+      cases c with
+      | none =>
+        simp [SliceTxt.toks, numTok, parseIndexExpression, parseSliceExpression, sliceLoop, PState.cur, PState.look1, PState.curTok,
+          PState.advance, PState.expect, bind, Res.bind, SliceTxt.node, ha]
+      | some c =>
+        obtain ⟨tc, ic⟩ := c
+        simp only [wfNum] at hc
+        simp [SliceTxt.toks, numTok, parseIndexExpression, parseSliceExpression, sliceLoop, PState.cur, PState.look1, PState.curTok,
+          PState.advance, PState.expect, bind, Res.bind, SliceTxt.node, ha, hc]
+    | some b =>
+      obtain ⟨tb, ib⟩ := b
+      simp only [wfNum] at hb
+      cases c with
+      | none =>
+        simp [SliceTxt.toks, numTok, parseIndexExpression, parseSliceExpression, sliceLoop, PState.cur, PState.look1, PState.curTok,
+          PState.advance, PState.expect, bind, Res.bind, SliceTxt.node, ha, hb]
+      | some c =>
+        obtain ⟨tc, ic⟩ := c
+        simp only [wfNum] at hc
+        simp [SliceTxt.toks, numTok, parseIndexExpression, parseSliceExpression, sliceLoop, PState.cur, PState.look1, PState.curTok,
+          PState.advance, PState.expect, bind, Res.bind, SliceTxt.node, ha, hb, hc]
+
+/-! ### projections -/
+
+def FollowRhs (r : Rhs N) (bp : Nat) (rest : List Token) : Prop := ∃ t rest', rest = t :: rest' ∧ specPow t.ty ≤ r.rp bp
+
+/-- The right-hand side of a projection, read by parseProjectionRHS at level `bp`. -/
+def GoodRhs (r : Rhs N) : Prop :=
+  ∀ bp, wfRhs bp r → ∀ (bef rest : List Token), FollowRhs r bp rest →
+    R T (.prhs bp ⟨bef, ppRhs r ++ rest⟩) (.node (nodeRhs r) ⟨(ppRhs r).reverse ++ bef, rest⟩)
+
+theorem good_rhs_none : GoodRhs (N := N) .none := by
+  intro bp _ bef rest hf
+  obtain ⟨t, rest', rfl, ht⟩ := hf
+  simp only [Rhs.rp] at ht
+  have := R.prhsId (tbl := T) (N := N) (bp := bp) (p := ⟨bef, t :: rest'⟩) (t := t) (rest := rest') rfl
+    (by rw [T_power]; show specPow t.ty < 10; omega)
+  simpa [ppRhs, nodeRhs] using this
+
+theorem good_rhs_dot {e : PE N} (gd : GoodDot e) : GoodRhs (.dot e) := by
+  intro bp hw bef rest hf
+  obtain ⟨t, rest', rfl, ht⟩ := hf
+  have ⟨hd, hwe⟩ : dotOK bp true e = true ∧ wf e := by simpa [wfRhs] using hw
+  have hdot := gd hwe bp true hd (tk .dot :: bef) (t :: rest') ⟨t, rest', rfl, by simpa [Rhs.rp] using ht⟩
+  have := R.prhsDot (tbl := T) (N := N) (bp := bp) (p := ⟨bef, tk .dot :: (ppE e ++ t :: rest')⟩) (t := tk .dot)
+    (rest := ppE e ++ t :: rest') rfl (by rw [T_power]; show ¬ (40 < 10); omega) rfl (by rw [advance_cons]; exact hdot)
+  simpa [ppRhs, nodeRhs] using this
+
+theorem good_rhs_br {e : PE N} (ge : GoodE e) : GoodRhs (.br e) := by
+  intro bp hw bef rest hf
+  obtain ⟨t, rest', rfl, ht⟩ := hf
+  have ⟨hb, hwe⟩ : brOK bp e = true ∧ wf e := by simpa [wfRhs] using hw
+  simp only [brOK, Bool.and_eq_true, Bool.or_eq_true, beq_iff_eq, decide_eq_true_eq] at hb
+  obtain ⟨hfirst, hlev⟩ := hb
+  simp only [Rhs.rp] at ht
+  obtain ⟨t0, ts0, hs, hty⟩ := ppE_first e
+  have hx := operand_expr ge hwe false bp bef t rest' (fun _ => ⟨hlev, by omega⟩) (by omega)
+  simp only [wrapIf] at hx
+  have hnlt : ¬ T.power t0.ty < T.projStop := by
+    rw [T_power, hty]; show ¬ (specPow (first e) < 10)
+    rcases hfirst with h | h <;> rw [h] <;> simp [specPow]
+  have := R.prhsBracket (tbl := T) (N := N) (bp := bp) (p := ⟨bef, ppE e ++ t :: rest'⟩) (t := t0) (rest := ts0 ++ t :: rest')
+    (by simp [hs]) hnlt (by rw [hty]; exact hfirst) hx
+  simpa [ppRhs, nodeRhs] using this
+
+/-- `l[*] rhs` -/
+theorem good_bstar {l : PE N} {r : Rhs N} (gl : GoodE l) (gr : GoodRhs r) : GoodE (.bstar l r) := by
+  intro hw k bef rest o hk hf hloop
+  have ⟨hwl, hwr⟩ : wf l ∧ wfRhs 20 r := by simpa [wf] using hw
+  have hk55 : k < 55 := by simpa [PE.level] using hk
+  obtain ⟨t, rest', rfl, ht⟩ := hf
+  simp only [PE.rp] at ht
+  have e1 : ppE (.bstar l r) = wrapIf (decide (l.rp < 55)) (ppE l) ++ (tk .lbracket :: tk .star :: tk .rbracket :: ppRhs r) := by
+    simp [ppE, wrapIf]
+  rw [e1] at hloop ⊢
+  rw [List.append_assoc]
+  refine left_operand gl hwl 55 k hk55 (tk .lbracket) rfl bef _ o ?_
+  generalize decide (l.rp < 55) = cl at hloop ⊢
+  have hrhs := gr 20 hwr (tk .rbracket :: tk .star :: tk .lbracket :: ((wrapIf cl (ppE l)).reverse ++ bef)) (t :: rest')
+    ⟨t, rest', rfl, by omega⟩
+  have hled := R.ledBracketStar (tbl := T) (n := node l)
+    (p := ⟨tk .lbracket :: ((wrapIf cl (ppE l)).reverse ++ bef), tk .star :: tk .rbracket :: (ppRhs r ++ t :: rest')⟩)
+    (s := tk .star) (rb := tk .rbracket) rfl rfl rfl hrhs
+  refine R.step (t := tk .lbracket) (rest := tk .star :: tk .rbracket :: (ppRhs r ++ t :: rest')) (by simp)
+    (by rw [T_power]; simpa [specPow] using hk55) (by simpa [advance_cons] using hled) ?_
+  simpa [node, List.reverse_append] using hloop
+
+/-- `[*] rhs` -/
+theorem good_bstar0 {r : Rhs N} (gr : GoodRhs r) : GoodE (.bstar0 r) := by
+  intro hw k bef rest o _ hf hloop
+  have hwr : wfRhs 20 r := by simpa [wf] using hw
+  obtain ⟨t, rest', rfl, ht⟩ := hf
+  simp only [PE.rp] at ht
+  have hrhs := gr 20 hwr (tk .rbracket :: tk .star :: tk .lbracket :: bef) (t :: rest') ⟨t, rest', rfl, by omega⟩
+  have hn := R.nudBracketStar (tbl := T) (tok := tk .lbracket)
+    (p := ⟨tk .lbracket :: bef, tk .star :: tk .rbracket :: (ppRhs r ++ t :: rest')⟩)
+    (s := tk .star) (rb := tk .rbracket) rfl rfl rfl rfl hrhs
+  have e1 : ppE (.bstar0 r) ++ t :: rest' = tk .lbracket :: tk .star :: tk .rbracket :: (ppRhs r ++ t :: rest') := by simp [ppE]
+  rw [e1]
+  refine R.expr (tok := tk .lbracket) rfl (by simpa [advance_cons] using hn) ?_
+  simpa [ppE, node, List.reverse_append] using hloop
+
+/-- `l[] rhs` -/
+theorem good_flat {l : PE N} {r : Rhs N} (gl : GoodE l) (gr : GoodRhs r) : GoodE (.flat l r) := by
+  intro hw k bef rest o hk hf hloop
+  have ⟨hwl, hwr⟩ : wf l ∧ wfRhs 9 r := by simpa [wf] using hw
+  have hk9 : k < 9 := by simpa [PE.level] using hk
+  obtain ⟨t, rest', rfl, ht⟩ := hf
+  simp only [PE.rp] at ht
+  have e1 : ppE (.flat l r) = wrapIf (decide (l.rp < 9)) (ppE l) ++ (tk .flatten :: ppRhs r) := by
+    simp [ppE, wrapIf]
+  rw [e1] at hloop ⊢
+  rw [List.append_assoc]
+  refine left_operand gl hwl 9 k hk9 (tk .flatten) rfl bef _ o ?_
+  generalize decide (l.rp < 9) = cl at hloop ⊢
+  have hrhs := gr 9 hwr (tk .flatten :: ((wrapIf cl (ppE l)).reverse ++ bef)) (t :: rest') ⟨t, rest', rfl, by omega⟩
+  have hled := R.ledFlatten (tbl := T) (n := node l) hrhs
+  refine R.step (t := tk .flatten) (rest := ppRhs r ++ t :: rest') (by simp)
+    (by rw [T_power]; simpa [specPow] using hk9) (by simpa [advance_cons] using hled) ?_
+  simpa [node, List.reverse_append] using hloop
+
+/-- `[] rhs` -/
+theorem good_flat0 {r : Rhs N} (gr : GoodRhs r) : GoodE (.flat0 r) := by
+  intro hw k bef rest o _ hf hloop
+  have hwr : wfRhs 9 r := by simpa [wf] using hw
+  obtain ⟨t, rest', rfl, ht⟩ := hf
+  simp only [PE.rp] at ht
+  have hrhs := gr 9 hwr (tk .flatten :: bef) (t :: rest') ⟨t, rest', rfl, by omega⟩
+  have hn := R.nudFlatten (tbl := T) (tok := tk .flatten) rfl hrhs
+  have e1 : ppE (.flat0 r) ++ t :: rest' = tk .flatten :: (ppRhs r ++ t :: rest') := by simp [ppE]
+  rw [e1]
+  refine R.expr (tok := tk .flatten) rfl (by simpa [advance_cons] using hn) ?_
+  simpa [ppE, node, List.reverse_append] using hloop
+
+/-- `l.* rhs` -/
+theorem good_dstar {l : PE N} {r : Rhs N} (gl : GoodE l) (gr : GoodRhs r) : GoodE (.dstar l r) := by
+  intro hw k bef rest o hk hf hloop
+  have ⟨hwl, hwr⟩ : wf l ∧ wfRhs 20 r := by simpa [wf] using hw
+  have hk40 : k < 40 := by simpa [PE.level] using hk
+  obtain ⟨t, rest', rfl, ht⟩ := hf
+  simp only [PE.rp] at ht
+  have e1 : ppE (.dstar l r) = wrapIf (decide (l.rp < 40)) (ppE l) ++ (tk .dot :: tk .star :: ppRhs r) := by
+    simp [ppE, wrapIf]
+  rw [e1] at hloop ⊢
+  rw [List.append_assoc]
+  refine left_operand gl hwl 40 k hk40 (tk .dot) rfl bef _ o ?_
+  generalize decide (l.rp < 40) = cl at hloop ⊢
+  have hrhs := gr 20 hwr (tk .star :: tk .dot :: ((wrapIf cl (ppE l)).reverse ++ bef)) (t :: rest') ⟨t, rest', rfl, by omega⟩
+  have hled := R.ledDotStar (tbl := T) (n := node l)
+    (p := ⟨tk .dot :: ((wrapIf cl (ppE l)).reverse ++ bef), tk .star :: (ppRhs r ++ t :: rest')⟩) (t := tk .star) rfl rfl hrhs
+  refine R.step (t := tk .dot) (rest := tk .star :: (ppRhs r ++ t :: rest')) (by simp)
+    (by rw [T_power]; simpa [specPow] using hk40) (by simpa [advance_cons] using hled) ?_
+  simpa [node, List.reverse_append] using hloop
+
+omit [NumOps N] in
+theorem ppRhs_head (r : Rhs N) (hne : ppRhs r ≠ []) : ∃ t ts, ppRhs r = t :: ts ∧ startTy t.ty = true ∨ ∃ ts, ppRhs r = tk .dot :: ts := by
+  cases r with
+  | none => exact absurd rfl hne
+  | dot e => exact ⟨tk .dot, [], Or.inr ⟨ppE e, rfl⟩⟩
+  | br e =>
+    obtain ⟨t, ts, h, ht⟩ := ppE_start e
+    exact ⟨t, ts, Or.inl ⟨h, ht⟩⟩
+
+/-- `* rhs` -/
+theorem good_star0 {r : Rhs N} (gr : GoodRhs r) : GoodE (.star0 r) := by
+  intro hw k bef rest o _ hf hloop
+  have hwr : wfRhs 20 r := by simpa [wf] using hw
+  obtain ⟨t, rest', rfl, ht⟩ := hf
+  simp only [PE.rp] at ht
+  have e1 : ppE (.star0 r) ++ t :: rest' = tk .star :: (ppRhs r ++ t :: rest') := by simp [ppE]
+  rw [e1]
+  have hrhs := gr 20 hwr (tk .star :: bef) (t :: rest') ⟨t, rest', rfl, by omega⟩
+  -- the token after `*`
+  have hnext : ∃ t1 ts1, ppRhs r ++ t :: rest' = t1 :: ts1 ∧ (t1.ty = .rbracket → r = .none) := by
+    cases r with
+    | none => exact ⟨t, rest', by simp [ppRhs], fun _ => rfl⟩
+    | dot e => exact ⟨tk .dot, ppE e ++ t :: rest', by simp [ppRhs], fun h => by cases h⟩
+    | br e =>
+      obtain ⟨t0, ts0, h0, hs0⟩ := ppE_start e
+      exact ⟨t0, ts0 ++ t :: rest', by simp [ppRhs, h0], fun h => absurd h (start_ne hs0).2.2.2.2.1⟩
+  obtain ⟨t1, ts1, h1, hrb⟩ := hnext
+  by_cases hb : t1.ty = .rbracket
+  · have := hrb hb; subst this
+    simp only [ppRhs, List.nil_append, List.cons.injEq] at h1
+    obtain ⟨rfl, rfl⟩ := h1
+    have hn := R.nudStarR (tbl := T) (N := N) (tok := tk .star) (p := ⟨tk .star :: bef, t :: rest'⟩) (t := t) (rest := rest') rfl rfl hb
+    refine R.expr (tok := tk .star) rfl (by simpa [advance_cons, ppRhs] using hn) ?_
+    simpa [ppE, node, nodeRhs, ppRhs] using hloop
+  · have hn := R.nudStar (tbl := T) (N := N) (tok := tk .star) (p := ⟨tk .star :: bef, ppRhs r ++ t :: rest'⟩) (t := t1) (rest := ts1)
+      rfl h1 hb hrhs
+    refine R.expr (tok := tk .star) rfl (by simpa [advance_cons] using hn) ?_
+    simpa [ppE, node, List.reverse_append] using hloop
+
+omit [NumOps N] in
+theorem slice_head (s : SliceTxt) : ∃ t ts, s.toks = t :: ts ∧ (t.ty = .number ∨ t.ty = .colon) := by
+  obtain ⟨a, b, c⟩ := s
+  cases a with
+  | none => exact ⟨tk .colon, _, rfl, Or.inr rfl⟩
+  | some a => obtain ⟨ta, ia⟩ := a; exact ⟨tk .number ta, _, rfl, Or.inl rfl⟩
+
+omit [NumOps N] in
+theorem slice_isSlice (s : SliceTxt) : isSliceNode (N := N) s.node = true := rfl
+
+/-- `l[a:b:c] rhs` -/
+theorem good_slice {l : PE N} {r : Rhs N} (s : SliceTxt) (gl : GoodE l) (gr : GoodRhs r) : GoodE (.slice l s r) := by
+  intro hw k bef rest o hk hf hloop
+  have ⟨hws, hwl, hwr⟩ : wfSlice s ∧ wf l ∧ wfRhs 20 r := by simpa [wf] using hw
+  have hk55 : k < 55 := by simpa [PE.level] using hk
+  obtain ⟨t, rest', rfl, ht⟩ := hf
+  simp only [PE.rp] at ht
+  have e1 : ppE (.slice l s r) = wrapIf (decide (l.rp < 55)) (ppE l) ++ (tk .lbracket :: (s.toks ++ tk .rbracket :: ppRhs r)) := by
+    simp [ppE, wrapIf]
+  rw [e1] at hloop ⊢
+  rw [List.append_assoc]
+  refine left_operand gl hwl 55 k hk55 (tk .lbracket) rfl bef _ o ?_
+  generalize decide (l.rp < 55) = cl at hloop ⊢
+  obtain ⟨t0, ts0, h0, hnc⟩ := slice_head s
+  have hidx := parseIndex_slice (N := N) s hws (tk .lbracket :: ((wrapIf cl (ppE l)).reverse ++ bef)) (ppRhs r ++ t :: rest')
+  have hrhs := gr 20 hwr (tk .rbracket :: (s.toks.reverse ++ tk .lbracket :: ((wrapIf cl (ppE l)).reverse ++ bef))) (t :: rest')
+    ⟨t, rest', rfl, by omega⟩
+  have hpis := R.pisSlice (tbl := T) (l := node l) (slice_isSlice (N := N) s) hrhs
+  have hled := R.ledBracketIdx (tbl := T) (n := node l)
+    (p := ⟨tk .lbracket :: ((wrapIf cl (ppE l)).reverse ++ bef), s.toks ++ tk .rbracket :: (ppRhs r ++ t :: rest')⟩)
+    (t := t0) (rest := ts0 ++ tk .rbracket :: (ppRhs r ++ t :: rest')) (by simp [h0]) hnc hidx hpis
+  refine R.step (t := tk .lbracket) (rest := s.toks ++ tk .rbracket :: (ppRhs r ++ t :: rest')) (by simp)
+    (by rw [T_power]; simpa [specPow] using hk55) (by simpa [advance_cons] using hled) ?_
+  simpa [node, List.reverse_append] using hloop
+
+/-- `[a:b:c] rhs` -/
+theorem good_slice0 {r : Rhs N} (s : SliceTxt) (gr : GoodRhs r) : GoodE (.slice0 s r) := by
+  intro hw k bef rest o _ hf hloop
+  have ⟨hws, hwr⟩ : wfSlice s ∧ wfRhs 20 r := by simpa [wf] using hw
+  obtain ⟨t, rest', rfl, ht⟩ := hf
+  simp only [PE.rp] at ht
+  obtain ⟨t0, ts0, h0, hnc⟩ := slice_head s
+  have hidx := parseIndex_slice (N := N) s hws (tk .lbracket :: bef) (ppRhs r ++ t :: rest')
+  have hrhs := gr 20 hwr (tk .rbracket :: (s.toks.reverse ++ tk .lbracket :: bef)) (t :: rest') ⟨t, rest', rfl, by omega⟩
+  have hpis := R.pisSlice (tbl := T) (l := (.identity : Node N)) (slice_isSlice (N := N) s) hrhs
+  have hn := R.nudBracketIdx (tbl := T) (tok := tk .lbracket)
+    (p := ⟨tk .lbracket :: bef, s.toks ++ tk .rbracket :: (ppRhs r ++ t :: rest')⟩)
+    (t := t0) (rest := ts0 ++ tk .rbracket :: (ppRhs r ++ t :: rest')) rfl (by simp [h0]) hnc hidx hpis
+  have e1 : ppE (.slice0 s r) ++ t :: rest' = tk .lbracket :: (s.toks ++ tk .rbracket :: (ppRhs r ++ t :: rest')) := by simp [ppE]
+  rw [e1]
+  refine R.expr (tok := tk .lbracket) rfl (by simpa [advance_cons] using hn) ?_
+  simpa [ppE, node, List.reverse_append] using hloop
+
+theorem rhs_next (r : Rhs N) (bp : Nat) (hw : wfRhs bp r) (t : Token) (rest' : List Token) :
+    ∃ t1 ts1, ppRhs r ++ t :: rest' = t1 :: ts1 ∧ (r = .none ∨ t1.ty = .dot ∨ t1.ty = .lbracket ∨ t1.ty = .filter) := by
+  cases r with
+  | none => exact ⟨t, rest', by simp [ppRhs], Or.inl rfl⟩
+  | dot e => exact ⟨tk .dot, ppE e ++ t :: rest', by simp [ppRhs], Or.inr (Or.inl rfl)⟩
+  | br e =>
+    have ⟨hb, _⟩ : brOK bp e = true ∧ wf e := by simpa [wfRhs] using hw
+    simp only [brOK, Bool.and_eq_true, Bool.or_eq_true, beq_iff_eq, decide_eq_true_eq] at hb
+    obtain ⟨t0, ts0, h0, hty⟩ := ppE_first e
+    refine ⟨t0, ts0 ++ t :: rest', by simp [ppRhs, h0], Or.inr (Or.inr ?_)⟩
+    rw [hty]; exact hb.1
+
+/-- the part of a filter after `[?`: condition, `]`, right-hand side -/
+theorem filter_body {c : PE N} {r : Rhs N} (gc : GoodE c) (gr : GoodRhs r) (hwc : wf c) (hwr : wfRhs 21 r) (n : Node N)
+    (bef : List Token) (t : Token) (rest' : List Token) (ht : specPow t.ty ≤ r.rp 21) :
+    R T (.filter n ⟨bef, ppE c ++ tk .rbracket :: (ppRhs r ++ t :: rest')⟩)
+      (.node (.filterProj n (nodeRhs r) (node c)) ⟨(ppRhs r).reverse ++ tk .rbracket :: ((ppE c).reverse ++ bef), t :: rest'⟩) := by
+  have hcond := elem_expr gc hwc bef (tk .rbracket) (ppRhs r ++ t :: rest') rfl
+  obtain ⟨t1, ts1, h1, hk⟩ := rhs_next r 21 hwr t rest'
+  by_cases hfl : t1.ty = .flatten
+  · have hr : r = .none := by
+      rcases hk with h | h | h | h
+      · exact h
+      all_goals (rw [hfl] at h; cases h)
+    subst hr
+    simp only [ppRhs, List.nil_append, List.cons.injEq] at h1
+    obtain ⟨rfl, rfl⟩ := h1
+    have := R.filterFlat (tbl := T) (n := n) hcond (rb := tk .rbracket) (t := t) (rest := rest') (by simp [ppRhs]) rfl hfl
+    simpa [ppRhs, nodeRhs, advance_cons] using this
+  · have hrhs := gr 21 hwr (tk .rbracket :: ((ppE c).reverse ++ bef)) (t :: rest') ⟨t, rest', rfl, ht⟩
+    exact R.filterRhs (tbl := T) (n := n) hcond (rb := tk .rbracket) (t := t1) (rest := ts1) (by rw [h1]) rfl hfl hrhs
+
+/-- `l[?c] rhs` -/
+theorem good_filt {l c : PE N} {r : Rhs N} (gl : GoodE l) (gc : GoodE c) (gr : GoodRhs r) : GoodE (.filt l c r) := by
+  intro hw k bef rest o hk hf hloop
+  have ⟨hwl, hwc, hwr⟩ : wf l ∧ wf c ∧ wfRhs 21 r := by simpa [wf] using hw
+  have hk21 : k < 21 := by simpa [PE.level] using hk
+  obtain ⟨t, rest', rfl, ht⟩ := hf
+  simp only [PE.rp] at ht
+  have e1 : ppE (.filt l c r) = wrapIf (decide (l.rp < 21)) (ppE l) ++ (tk .filter :: (ppE c ++ tk .rbracket :: ppRhs r)) := by
+    simp [ppE, wrapIf]
+  rw [e1] at hloop ⊢
+  rw [List.append_assoc]
+  refine left_operand gl hwl 21 k hk21 (tk .filter) rfl bef _ o ?_
+  generalize decide (l.rp < 21) = cl at hloop ⊢
+  have hbody := filter_body gc gr hwc hwr (node l) (tk .filter :: ((wrapIf cl (ppE l)).reverse ++ bef)) t rest' (by omega)
+  have hled := R.ledFilter (tbl := T) hbody
+  refine R.step (t := tk .filter) (rest := ppE c ++ tk .rbracket :: (ppRhs r ++ t :: rest')) (by simp)
+    (by rw [T_power]; simpa [specPow] using hk21) (by simpa [advance_cons] using hled) ?_
+  simpa [node, List.reverse_append] using hloop
+
+/-- `[?c] rhs` -/
+theorem good_filt0 {c : PE N} {r : Rhs N} (gc : GoodE c) (gr : GoodRhs r) : GoodE (.filt0 c r) := by
+  intro hw k bef rest o _ hf hloop
+  have ⟨hwc, hwr⟩ : wf c ∧ wfRhs 21 r := by simpa [wf] using hw
+  obtain ⟨t, rest', rfl, ht⟩ := hf
+  simp only [PE.rp] at ht
+  have hbody := filter_body gc gr hwc hwr (.identity : Node N) (tk .filter :: bef) t rest' (by omega)
+  have hn := R.nudFilter (tbl := T) (tok := tk .filter) rfl hbody
+  have e1 : ppE (.filt0 c r) ++ t :: rest' = tk .filter :: (ppE c ++ tk .rbracket :: (ppRhs r ++ t :: rest')) := by simp [ppE]
+  rw [e1]
+  refine R.expr (tok := tk .filter) rfl (by simpa [advance_cons] using hn) ?_
+  simpa [ppE, node, List.reverse_append] using hloop
 
 mutual
-/-- Every expression of the fragment is parsed back from its printed form. -/
+/-- Every expression is parsed back from its printed form. -/
 theorem good_all : (e : PE N) → GoodE e ∧ GoodDot e
-  | .ident n => ⟨good_ident n, dot_head (good_ident n) rfl⟩
-  | .quoted n => ⟨good_quoted n, dot_head (good_quoted n) rfl⟩
-  | .raw s => ⟨good_raw s, dot_not_head rfl⟩
-  | .lit t v => ⟨good_lit t v, dot_not_head rfl⟩
-  | .current => ⟨good_current, dot_not_head rfl⟩
-  | .idx0 t i => ⟨good_idx0 t i, dot_not_head rfl⟩
-  | .idx l t i =>
-    have g := good_idx t i (good_all l).1
-    ⟨g, by
-      cases h : dotHead (.idx l t i) with
-      | true => exact dot_head g h
-      | false => exact dot_not_head (by simpa [dotOK] using h)⟩
-  | .sub l r => ⟨good_sub (good_all l).1 (good_all r).2 (fun full => star_of_start (ppE_start full r)), dot_not_head rfl⟩
-  | .not e => ⟨good_not (good_all e).1, dot_not_head rfl⟩
-  | .bin op l r => ⟨good_bin op (good_all l).1 (good_all r).1, dot_not_head rfl⟩
-  | .call n args => ⟨good_call n (good_args args), dot_head (good_call n (good_args args)) rfl⟩
+  | .ident n => ⟨good_ident n, dot_of_good (good_ident n) rfl⟩
+  | .quoted n => ⟨good_quoted n, dot_of_good (good_quoted n) rfl⟩
+  | .raw s => ⟨good_raw s, dot_of_good (good_raw s) rfl⟩
+  | .lit t v => ⟨good_lit t v, dot_of_good (good_lit t v) rfl⟩
+  | .current => ⟨good_current, dot_of_good good_current rfl⟩
+  | .idx0 t i => ⟨good_idx0 t i, dot_of_good (good_idx0 t i) rfl⟩
+  | .idx l t i => have g := good_idx t i (good_all l).1; ⟨g, dot_of_good g rfl⟩
+  | .sub l r => have g := good_sub (good_all l).1 (good_all r).2; ⟨g, dot_of_good g rfl⟩
+  | .not e => have g := good_not (good_all e).1; ⟨g, dot_of_good g rfl⟩
+  | .bin op l r => have g := good_bin op (good_all l).1 (good_all r).1; ⟨g, dot_of_good g rfl⟩
+  | .call n args => have g := good_call n (good_args args); ⟨g, dot_of_good g rfl⟩
   | .list x xs => ⟨good_list (good_all x).1 (good_list' xs), dot_list (good_all x).1 (good_list' xs)⟩
   | .hash q k v kvs => ⟨good_hash q k (good_all v).1 (good_kvs kvs), dot_hash q k (good_all v).1 (good_kvs kvs)⟩
+  | .paren e => have g := good_paren (good_all e).1; ⟨g, dot_of_good g rfl⟩
+  | .star0 r => have g := good_star0 (good_rhs r); ⟨g, dot_of_good g rfl⟩
+  | .dstar l r => have g := good_dstar (good_all l).1 (good_rhs r); ⟨g, dot_of_good g rfl⟩
+  | .bstar0 r => have g := good_bstar0 (good_rhs r); ⟨g, dot_of_good g rfl⟩
+  | .bstar l r => have g := good_bstar (good_all l).1 (good_rhs r); ⟨g, dot_of_good g rfl⟩
+  | .flat0 r => have g := good_flat0 (good_rhs r); ⟨g, dot_of_good g rfl⟩
+  | .flat l r => have g := good_flat (good_all l).1 (good_rhs r); ⟨g, dot_of_good g rfl⟩
+  | .slice0 s r => have g := good_slice0 s (good_rhs r); ⟨g, dot_of_good g rfl⟩
+  | .slice l s r => have g := good_slice s (good_all l).1 (good_rhs r); ⟨g, dot_of_good g rfl⟩
+  | .filt0 c r => have g := good_filt0 (good_all c).1 (good_rhs r); ⟨g, dot_of_good g rfl⟩
+  | .filt l c r => have g := good_filt (good_all l).1 (good_all c).1 (good_rhs r); ⟨g, dot_of_good g rfl⟩
+theorem good_rhs : (r : Rhs N) → GoodRhs r
+  | .none => good_rhs_none
+  | .dot e => good_rhs_dot (good_all e).2
+  | .br e => good_rhs_br (good_all e).1
 theorem good_list' : (xs : List (PE N)) → GoodList xs
   | [] => trivial
   | x :: xs => ⟨(good_all x).1, good_list' xs⟩
@@ -633,6 +1062,8 @@ theorem good_args : (as : List (Bool × PE N)) → GoodArgs as
   | (_, e) :: rest => ⟨(good_all e).1, good_args rest⟩
 end
 
+/-! ### the printed tokens are well formed, and the round trip -/
+
 def okTok (t : Token) : Prop := t.ty ≠ .eof ∧ t.pos = 0
 
 theorem ok_tk (ty : TokType) (v : Bytes) (h : ty ≠ .eof) : okTok (tk ty v) := ⟨h, rfl⟩
@@ -643,93 +1074,232 @@ theorem ok_op (op : BinOp) : okTok (tk op.tok) := by
   | cmp c => cases c <;> simp [BinOp.tok, cmpTok]
   | _ => simp [BinOp.tok]
 
+def AllOK (l : List Token) : Prop := ∀ t ∈ l, okTok t
+theorem allOK_nil : AllOK [] := fun _ h => by cases h
+theorem allOK_cons {t : Token} {l : List Token} (h1 : okTok t) (h2 : AllOK l) : AllOK (t :: l) := by
+  intro x hx; rcases List.mem_cons.mp hx with rfl | h; exact h1; exact h2 x h
+theorem allOK_tk {ty : TokType} {v : Bytes} {l : List Token} (h : ty ≠ .eof) (h2 : AllOK l) : AllOK (tk ty v :: l) :=
+  allOK_cons (ok_tk ty v h) h2
+theorem allOK_append {a b : List Token} (h1 : AllOK a) (h2 : AllOK b) : AllOK (a ++ b) := by
+  intro x hx; rcases List.mem_append.mp hx with h | h; exact h1 x h; exact h2 x h
+theorem allOK_parens {l : List Token} (h : AllOK l) : AllOK (parens l) :=
+  allOK_append (allOK_tk (by simp) h) (allOK_tk (by simp) allOK_nil)
+theorem allOK_wrap {l : List Token} (c : Prop) [Decidable c] (h : AllOK l) : AllOK (if c then parens l else l) := by
+  split; exact allOK_parens h; exact h
+theorem allOK_num (o : Option (Bytes × Int)) : AllOK (numTok o) := by
+  cases o with
+  | none => exact allOK_nil
+  | some x => exact allOK_tk (by simp) allOK_nil
+theorem allOK_slice (s : SliceTxt) : AllOK s.toks := by
+  obtain ⟨a, b, c⟩ := s
+  refine allOK_append (allOK_append (allOK_num a) (allOK_tk (by simp) (allOK_num b))) ?_
+  cases c with
+  | none => exact allOK_nil
+  | some x => exact allOK_tk (by simp) (allOK_tk (by simp) allOK_nil)
+
+macro "aok" : tactic => `(tactic| (first
+  | assumption
+  | exact allOK_nil
+  | exact allOK_slice _
+  | (apply allOK_wrap; assumption)
+  | (apply allOK_parens; assumption)))
+
 mutual
-theorem ppE_ok (full : Bool) : (e : PE N) → ∀ t ∈ ppE full e, okTok t
-  | .ident n | .quoted n | .raw n | .lit n _ => by simp [ppE, ok_tk]
-  | .current => by simp [ppE, ok_tk]
-  | .idx0 txt i => by simp [ppE, ok_tk]
+theorem ppE_ok : (e : PE N) → AllOK (ppE e)
+  | .ident n | .quoted n | .raw n | .lit n _ => by simp only [ppE]; exact allOK_tk (by simp) allOK_nil
+  | .current => by simp only [ppE]; exact allOK_tk (by simp) allOK_nil
+  | .idx0 txt i => by simp only [ppE]; exact allOK_tk (by simp) (allOK_tk (by simp) (allOK_tk (by simp) allOK_nil))
   | .idx l txt i => by
-    have ih := ppE_ok full l
-    simp only [ppE]; split <;> simp [parens, ok_tk, or_imp, forall_and] <;> exact ih
+    have ih := ppE_ok l
+    simp only [ppE]
+    exact allOK_append (allOK_wrap _ ih) (allOK_tk (by simp) (allOK_tk (by simp) (allOK_tk (by simp) allOK_nil)))
   | .sub l r => by
-    have ih := ppE_ok full l
-    have ih2 := ppE_ok full r
-    simp only [ppE]; split <;> simp [parens, ok_tk, or_imp, forall_and] <;> exact ⟨ih, ih2⟩
+    have ih := ppE_ok l
+    have ih2 := ppE_ok r
+    simp only [ppE]
+    exact allOK_append (allOK_wrap _ ih) (allOK_tk (by simp) ih2)
   | .not e => by
-    have ih := ppE_ok full e
-    simp only [ppE]; split <;> simp [parens, ok_tk, or_imp, forall_and] <;> exact ih
+    have ih := ppE_ok e
+    simp only [ppE]
+    exact allOK_tk (by simp) (allOK_wrap _ ih)
   | .bin op l r => by
-    have ih := ppE_ok full l
-    have ih2 := ppE_ok full r
-    simp only [ppE]; split <;> split <;> simp [parens, ok_tk, ok_op, or_imp, forall_and] <;> exact ⟨ih, ih2⟩
+    have ih := ppE_ok l
+    have ih2 := ppE_ok r
+    simp only [ppE]
+    exact allOK_append (allOK_wrap _ ih) (allOK_cons (ok_op op) (allOK_wrap _ ih2))
   | .call n args => by
-    have ih := ppArgs_ok full args
-    simp [ppE, ok_tk, or_imp, forall_and]; exact ih
+    have ih := ppArgs_ok args
+    simp only [ppE]
+    exact allOK_append (allOK_tk (by simp) (allOK_tk (by simp) ih)) (allOK_tk (by simp) allOK_nil)
   | .list x xs => by
-    have ih := ppE_ok full x
-    have ih2 := ppTail_ok full xs
-    simp [ppE, ok_tk, or_imp, forall_and]; exact ⟨ih, ih2⟩
+    have ih := ppE_ok x
+    have ih2 := ppTail_ok xs
+    simp only [ppE]
+    exact allOK_append (allOK_append (allOK_tk (by simp) ih) ih2) (allOK_tk (by simp) allOK_nil)
   | .hash q k v kvs => by
-    have ih := ppE_ok full v
-    have ih2 := ppKVs_ok full kvs
-    simp [ppE, ok_tk, ok_key, or_imp, forall_and]; exact ⟨ih, ih2⟩
-theorem ppTail_ok (full : Bool) : (xs : List (PE N)) → ∀ t ∈ ppTail full xs, okTok t
-  | [] => by simp [ppTail]
+    have ih := ppE_ok v
+    have ih2 := ppKVs_ok kvs
+    simp only [ppE]
+    exact allOK_append (allOK_append (allOK_tk (by simp) (allOK_cons (ok_key q k) (allOK_tk (by simp) ih))) ih2) (allOK_tk (by simp) allOK_nil)
+  | .paren e => by
+    have ih := ppE_ok e
+    simp only [ppE]; exact allOK_parens ih
+  | .star0 r => by
+    have ih := ppRhs_ok r
+    simp only [ppE]; exact allOK_tk (by simp) ih
+  | .dstar l r => by
+    have ih := ppE_ok l
+    have ih2 := ppRhs_ok r
+    simp only [ppE]
+    exact allOK_append (allOK_wrap _ ih) (allOK_tk (by simp) (allOK_tk (by simp) ih2))
+  | .bstar0 r => by
+    have ih := ppRhs_ok r
+    simp only [ppE]; exact allOK_tk (by simp) (allOK_tk (by simp) (allOK_tk (by simp) ih))
+  | .bstar l r => by
+    have ih := ppE_ok l
+    have ih2 := ppRhs_ok r
+    simp only [ppE]
+    exact allOK_append (allOK_wrap _ ih) (allOK_tk (by simp) (allOK_tk (by simp) (allOK_tk (by simp) ih2)))
+  | .flat0 r => by
+    have ih := ppRhs_ok r
+    simp only [ppE]; exact allOK_tk (by simp) ih
+  | .flat l r => by
+    have ih := ppE_ok l
+    have ih2 := ppRhs_ok r
+    simp only [ppE]
+    exact allOK_append (allOK_wrap _ ih) (allOK_tk (by simp) ih2)
+  | .slice0 s r => by
+    have ih := ppRhs_ok r
+    simp only [ppE]
+    exact allOK_append (allOK_tk (by simp) (allOK_slice s)) (allOK_tk (by simp) ih)
+  | .slice l s r => by
+    have ih := ppE_ok l
+    have ih2 := ppRhs_ok r
+    simp only [ppE]
+    exact allOK_append (allOK_append (allOK_wrap _ ih) (allOK_tk (by simp) (allOK_slice s))) (allOK_tk (by simp) ih2)
+  | .filt0 c r => by
+    have ih := ppE_ok c
+    have ih2 := ppRhs_ok r
+    simp only [ppE]
+    exact allOK_append (allOK_tk (by simp) ih) (allOK_tk (by simp) ih2)
+  | .filt l c r => by
+    have ih := ppE_ok l
+    have ih1 := ppE_ok c
+    have ih2 := ppRhs_ok r
+    simp only [ppE]
+    exact allOK_append (allOK_append (allOK_wrap _ ih) (allOK_tk (by simp) ih1)) (allOK_tk (by simp) ih2)
+theorem ppRhs_ok : (r : Rhs N) → AllOK (ppRhs r)
+  | .none => by simp only [ppRhs]; exact allOK_nil
+  | .dot e => by have ih := ppE_ok e; simp only [ppRhs]; exact allOK_tk (by simp) ih
+  | .br e => by have ih := ppE_ok e; simp only [ppRhs]; exact ih
+theorem ppTail_ok : (xs : List (PE N)) → AllOK (ppTail xs)
+  | [] => by simp only [ppTail]; exact allOK_nil
   | x :: xs => by
-    have ih := ppE_ok full x
-    have ih2 := ppTail_ok full xs
-    simp [ppTail, ok_tk, or_imp, forall_and]; exact ⟨ih, ih2⟩
-theorem ppKVs_ok (full : Bool) : (kvs : List (Bool × Bytes × PE N)) → ∀ t ∈ ppKVs full kvs, okTok t
-  | [] => by simp [ppKVs]
+    have ih := ppE_ok x
+    have ih2 := ppTail_ok xs
+    simp only [ppTail]
+    exact allOK_append (allOK_tk (by simp) ih) ih2
+theorem ppKVs_ok : (kvs : List (Bool × Bytes × PE N)) → AllOK (ppKVs kvs)
+  | [] => by simp only [ppKVs]; exact allOK_nil
   | (q, k, v) :: rest => by
-    have ih := ppE_ok full v
-    have ih2 := ppKVs_ok full rest
-    simp [ppKVs, ok_tk, ok_key, or_imp, forall_and]; exact ⟨ih, ih2⟩
-theorem ppArgs_ok (full : Bool) : (as : List (Bool × PE N)) → ∀ t ∈ ppArgs full as, okTok t
-  | [] => by simp [ppArgs]
+    have ih := ppE_ok v
+    have ih2 := ppKVs_ok rest
+    simp only [ppKVs]
+    exact allOK_append (allOK_tk (by simp) (allOK_cons (ok_key q k) (allOK_tk (by simp) ih))) ih2
+theorem ppArgs_ok : (as : List (Bool × PE N)) → AllOK (ppArgs as)
+  | [] => by simp only [ppArgs]; exact allOK_nil
   | [(b, e)] => by
-    have ih := ppE_ok full e
-    cases b <;> simp [ppArgs, ok_tk, or_imp, forall_and] <;> exact ih
+    have ih := ppE_ok e
+    simp only [ppArgs]
+    refine allOK_append ?_ ih
+    split; exact allOK_tk (by simp) allOK_nil; exact allOK_nil
   | (b, e) :: a :: rest => by
-    have ih := ppE_ok full e
-    have ih2 := ppArgs_ok full (a :: rest)
-    cases b <;> simp only [ppArgs] <;> simp [ok_tk, or_imp, forall_and] <;> exact ⟨ih, ih2⟩
+    have ih := ppE_ok e
+    have ih2 := ppArgs_ok (a :: rest)
+    simp only [ppArgs]
+    refine allOK_append (allOK_append ?_ ih) (allOK_tk (by simp) ih2)
+    split; exact allOK_tk (by simp) allOK_nil; exact allOK_nil
 end
 
 /-- The round trip on the relational description. -/
-theorem round_trip_R (e : PE N) (hw : wf e) (full : Bool) :
-    R T (.expr 0 ⟨[], ppE full e ++ [eofTok 0]⟩) (.node (node e) ⟨(ppE full e).reverse, [eofTok 0]⟩) := by
-  have := elem_expr (good_all e).1 hw full [] (eofTok 0) [] rfl
+theorem round_trip_R (e : PE N) (hw : wf e) :
+    R T (.expr 0 ⟨[], ppE e ++ [eofTok 0]⟩) (.node (node e) ⟨(ppE e).reverse, [eofTok 0]⟩) := by
+  have := elem_expr (good_all e).1 hw [] (eofTok 0) [] rfl
   simpa using this
 
-/-- **Printer round trip**, for the specification's table: the parser maps the
-    printed tokens of `e` (minimal or full parenthesisation) to the AST `e` denotes. -/
-theorem round_trip_spec (e : PE N) (hw : wf e) (full : Bool) :
-    parseTokens T (ppE full e ++ [eofTok 0]) = .ok (node e) := by
-  have hR := R_sound T (round_trip_R e hw full) (fuelFor (ppE full e ++ [eofTok 0]).length)
-  have htoks : Lexer.TokensOK 0 (ppE full e ++ [eofTok 0]) := by
-    refine ⟨⟨ppE full e, rfl, fun t ht => (ppE_ok full e t ht).1⟩, ?_⟩
-    intro t ht
-    rcases List.mem_append.mp ht with h | h
-    · rw [(ppE_ok full e t h).2]; exact Nat.le_refl 0
-    · simp at h; subst h; exact Nat.le_refl 0
-  have hok := parseTokens_ok (N := N) (tbl := T) (total := 0) rfl _ htoks
+/-- A relational derivation of a whole, well-formed token list is what `parseTokens` returns. -/
+theorem parseTokens_of_R {toks : List Token} {ast : Node N} {p1 : PState} {total : Nat}
+    (hR : R T (.expr 0 ⟨[], toks⟩) (.node ast p1)) (hp1 : ∃ t rest, p1.after = t :: rest ∧ t.ty = .eof)
+    (htoks : Lexer.TokensOK total toks) : parseTokens T toks = .ok ast := by
+  have hS := R_sound T hR (fuelFor toks.length)
+  have hok := parseTokens_ok (N := N) (tbl := T) (total := total) rfl _ htoks
   unfold parseTokens at hok ⊢
-  simp only [run] at hR
+  simp only [run] at hS
   have htop : T.top = 0 := rfl
   rw [htop] at hok ⊢
-  cases hpe : parseExpression (N := N) T (fuelFor (ppE full e ++ [eofTok 0]).length) 0 ⟨[], ppE full e ++ [eofTok 0]⟩ with
+  cases hpe : parseExpression (N := N) T (fuelFor toks.length) 0 ⟨[], toks⟩ with
   | ok r =>
     obtain ⟨n, p⟩ := r
-    rw [hpe] at hR
-    simp only [toOutN] at hR
-    rcases hR with h | h
+    rw [hpe] at hS
+    simp only [toOutN] at hS
+    rcases hS with h | h
     · injection h with h; injection h with h1 h2
       subst h1; subst h2
-      have hty : (eofTok 0).ty = .eof := rfl
-      simp [bind, Res.bind, PState.cur, hty]
+      obtain ⟨t, rest, hafter, hty⟩ := hp1
+      simp [bind, Res.bind, PState.cur, hafter, hty]
     · cases h
-  | err x => rw [hpe] at hR; simp [toOutN] at hR
+  | err x => rw [hpe] at hS; simp [toOutN] at hS
   | panic s => rw [hpe] at hok; simp [bind, Res.bind, ROK] at hok
+
+/-- **Printer round trip**, for the specification's table: the parser maps the
+    printed tokens of `e` to the AST `e` denotes. -/
+theorem round_trip_spec (e : PE N) (hw : wf e) : parseTokens T (ppE e ++ [eofTok 0]) = .ok (node e) := by
+  refine parseTokens_of_R (total := 0) (round_trip_R e hw) ⟨eofTok 0, [], rfl, rfl⟩ ?_
+  refine ⟨⟨ppE e, rfl, fun t ht => (ppE_ok e t ht).1⟩, ?_⟩
+  intro t ht
+  rcases List.mem_append.mp ht with h | h
+  · rw [(ppE_ok e t h).2]; exact Nat.le_refl 0
+  · simp at h; subst h; exact Nat.le_refl 0
+
+/-! ### parentheses leave no trace in the AST -/
+
+section
+omit [NumOps N]
+mutual
+theorem node_erase : (e : PE N) → node (erase e) = node e
+  | .ident _ | .quoted _ | .raw _ | .lit _ _ | .current | .idx0 _ _ => rfl
+  | .idx l t i => by simp only [erase, node, node_erase l]
+  | .sub l r => by simp only [erase, node, node_erase l, node_erase r]
+  | .not e => by simp only [erase, node, node_erase e]
+  | .bin op l r => by simp only [erase, node, node_erase l, node_erase r]
+  | .call n args => by simp only [erase, node, nodeArgs_erase args]
+  | .list x xs => by simp only [erase, node, node_erase x, nodeList_erase xs]
+  | .hash q k v kvs => by simp only [erase, node, node_erase v, nodeKVs_erase kvs]
+  | .paren e => by simp only [erase, node, node_erase e]
+  | .star0 r => by simp only [erase, node, nodeRhs_erase r]
+  | .dstar l r => by simp only [erase, node, node_erase l, nodeRhs_erase r]
+  | .bstar0 r => by simp only [erase, node, nodeRhs_erase r]
+  | .bstar l r => by simp only [erase, node, node_erase l, nodeRhs_erase r]
+  | .flat0 r => by simp only [erase, node, nodeRhs_erase r]
+  | .flat l r => by simp only [erase, node, node_erase l, nodeRhs_erase r]
+  | .slice0 s r => by simp only [erase, node, nodeRhs_erase r]
+  | .slice l s r => by simp only [erase, node, node_erase l, nodeRhs_erase r]
+  | .filt0 c r => by simp only [erase, node, node_erase c, nodeRhs_erase r]
+  | .filt l c r => by simp only [erase, node, node_erase l, node_erase c, nodeRhs_erase r]
+theorem nodeRhs_erase : (r : Rhs N) → nodeRhs (eraseRhs r) = nodeRhs r
+  | .none => rfl
+  | .dot e => by simp only [eraseRhs, nodeRhs, node_erase e]
+  | .br e => by simp only [eraseRhs, nodeRhs, node_erase e]
+theorem nodeList_erase : (xs : List (PE N)) → nodeList (eraseList xs) = nodeList xs
+  | [] => rfl
+  | x :: xs => by simp only [eraseList, nodeList, node_erase x, nodeList_erase xs]
+theorem nodeKVs_erase : (kvs : List (Bool × Bytes × PE N)) → nodeKVs (eraseKVs kvs) = nodeKVs kvs
+  | [] => rfl
+  | (q, k, v) :: rest => by simp only [eraseKVs, nodeKVs, node_erase v, nodeKVs_erase rest]
+theorem nodeArgs_erase : (as : List (Bool × PE N)) → nodeArgs (eraseArgs as) = nodeArgs as
+  | [] => rfl
+  | (b, e) :: rest => by simp only [eraseArgs, nodeArgs, node_erase e, nodeArgs_erase rest]
+end
+end
 
 end Jmes.Parser
